@@ -350,6 +350,92 @@ which sees a construct first and hands everything it does not recognise to Fn):
   a for loop whose body rebinds its loop variable gets a fresh one; str(self) = the translated __str__; text % (a, b, ..) = py_fmt_ints;
   s.split("\n") = py_str_split_nl, s.strip() = py_str_strip, s.split(None, 2)[2] = py_str_field3 (Model/Ieee.v split_nl / strip /
   third_field), `a in b` and truth of text as for bytes.
+SRCG (class FnG, a subclass of FnE, units SRCG_UNITS; all code in the block `SRCG` at the end of this file; symbols in
+Model/SrcPreludeG.v; the text generated for every other unit is untouched):
+* netaddr/ip/iana.py -> pysrc_iana_gen.v (C19: _within_bounds, query).  IANA_INFO is a table symbol: a Section variable
+  `IANA_INFO : string -> list irow` of the generated file (the module-level name must be bound once, to a dict literal of empty
+  dicts; `IANA_INFO['K']` needs a literal key of that literal); a row (Model/Iana.v irow) is one dictionary item, key object and
+  record: `for a, b in _dict_items(IANA_INFO['K']): body` (compat._dict_items checked to be `lambda x: list(x.items())`) is
+  rewritten by SrcgPrepare to `for a__b__N in __g_iana_items('K'): a = __g_item_key(..); b = __g_item_value(..); body` -- a (type
+  `ikey`) and b (type `irec`) are the same row.  `hasattr(x, 'name')` on an `ikey` splits into the three classes a key object can
+  have (SrcPreludeG.py_ikey_view: IKNet = an IPNetwork object, IKRange = an IPRange (refined operand ORng), IKAddr = an
+  IPAddress (version, value)); inside an arm `hasattr` on a BaseIP object is decided from the parsed class (a property / method /
+  class attribute found through the bases; every class on the way must have a literal __slots__ that does not list the name and no
+  __getattr__), a decided branch that returns is not followed by the rest (the final `raise Exception` of _within_bounds is dead).
+  `x in y` / `x == y` / `x != y` on names bound to BaseIP objects = the translated __contains__ / __eq__ / __ne__ of y's / x's
+  class on the other one as operand; `x.m(..)` on an IPAddress object = the translated method; an IPAddress object handed to a
+  translated function is its pair.  A local first bound by `d = {}` is a dict of lists (type `sdict` = association list in
+  insertion order): `d.setdefault('k', [])` = py_sd_setdefault, `d['k'].append(e)` = py_sd_append (KeyError), rewritten to
+  assignments of d before translation (the names __g_* are the translator's).
+* netaddr/eui/__init__.py -> pysrc_euig_gen.v (C19: the identifier classes).  Types: `oui` / `iab` = an OUI / IAB object, represented
+  by its integer (as for CTOR_AS_ARG): `isinstance(x, C)` on it is decided by the class hierarchy, `x._value` is the integer;
+  `orec` = a registration record (the dict with the six constant keys of SRCG_REC_KEYS) as the tuple of its values in that order --
+  what the SRCF unit's _parse_data answers.  Unit-entry pseudo-parameters: "self.<attr>": <type> makes that attribute a leading
+  parameter; "self.*": "a,b" declares a constructor-like method: the listed attributes are locals (unbound at entry), the method
+  must not return a value and answers the tuple of their final values; a parameter type "tup:t1,t2" is a tuple.  `isinstance(<int /
+  str parameter>, str)` and `_is_int(x)` are decided by the declared type; `DictDotLookup(d)` (the attribute view of a dict) is d;
+  `'<text>%s<text>' % self` = the text around the translated __str__; `'<text>%o' % e` = py_fmt_oct; `'<text>%x' % e` = py_fmt_hex.
+  The constructors OUI.__init__ / IAB.__init__ (variant `:int`) are first rewritten by FnG.prepare_ctor (its docstring lists the
+  rewrites): super().__init__() inlined, the function-level `from netaddr.eui import ieee` dropped with `ieee.OUI_INDEX` /
+  `ieee.IAB_INDEX` read as the Section variables of those names (type eindex = the dict's items; `k in D` = py_eidx_mem, `D[k]` =
+  py_eidx_get with KeyError; ieee.py must bind the name once by `NAME = {}`), the file object dropped with `fh.seek(o); x =
+  fh.read(n).decode('UTF-8')` (adjacent statements) = REGISTRY_FILE '<file>' o n (a Section variable; UnicodeDecodeError is not
+  modelled), the record dict literal / `self.record['k'] = e` as tuple construction / py_rec_set, the statement
+  `self._parse_data(..)` as the assignment of what the translated callee answers (checked: the callee touches the object only
+  through self.records.append(record) as its last statement, resp. through self.record[..] = ..), `for (a, b) in e` unpacked in
+  the body, `a, b = <method answering a tuple of ints>` = py_pair_of_list (ValueError), a call of a SRCF_CLASSMETHODS classmethod
+  through self with keyword arguments.  EUI.__repr__ declares "self._dialect" (the translated EUI.__str__ takes the receiver's dialect
+  first).  EUI.info: `self.oui.registration()` / `self.iab.registration()` really build the identifier object (FnG.registration_of:
+  None -> AttributeError, else the translated constructor __init__:int on the integer the translated getter answers, then the
+  translated registration()); `d = {'OUI': e}` / `d['IAB'] = e` is the pair (record, None-or-record) (type einfo).
+* netaddr/eui/ieee.py -> pysrc_ieeeg_gen.v (C19: load_index).  A parameter declared `eindex` is an index dict changed in place: the
+  function answers the new dict (a `return` is appended; it must have none of its own); `index.setdefault(k, [])` /
+  `index[k].append((a, b))` = py_eidx_setdefault / py_eidx_append; `try: BODY / finally: <file parameter>.close()` is BODY;
+  `_csv.reader([x.decode('UTF-8') for x in fp])` for the file parameter fp (declared `list str`: its lines) = the Section variable
+  CSV_READER applied to the lines (csv.Error / UnicodeDecodeError not modelled; `import csv as _csv` checked); `[int(x) for x in
+  xs]` over text = py_map_og (py_int_o 10) (ValueError at the first bad item); `(a, b, c) = <list of ints>` = py_triple_of_list.
+* netaddr/ip/__init__.py -> pysrc_ipg_gen.v (C01: __repr__ of IPAddress / IPNetwork / IPRange, IPRange.__str__, IPAddress.__oct__;
+  C16: IPNetwork.ipv4).  `'..%s..%d..' % (a, ..)` = the pieces joined by String.append: %d = fmt_d of an int, %s = text itself, an int
+  in decimal, `self` / an IPAddress object (also self._start / self._end of an IPRange) through the translated __str__,
+  `self.__class__.__name__` = the name of the receiver class.  A definition that reaches a translated definition taking the socket
+  back-end takes `(be : backend)` first.  `klass = self.__class__; klass(<text>)` for the receiver class IPNetwork = the translated
+  constructor IPNetwork.__init__:str with its literal defaults; `_ipv4.f(args)` = the function f translated by a unit over
+  netaddr/strategy/ipv4.py (an omitted trailing parameter whose default is None and whose Coq type is unit: tt).  A local that
+  stays None on the paths where no branch assigns it makes the result optional (`ip = None .. return ip`).
+  IPAddress.format: a parameter declared `darg6` is None | a dialect class with word_fmt (the pair (word_fmt, compact), as the SRCC
+  unit's optcls6) | another object (SrcPreludeG.darg6): `x is [not] None` on it splits into the three constructors, inside the arms
+  `x is None` and `hasattr(x, 'word_fmt')` are decided; `self._module.f(a, kw=b)` on an IPAddress receiver = `if ver =?
+  src_ipv4_version then <ipv4's f> else if ver =? src_ipv6_version then <ipv6's f> else Raise Unsupported`, arguments by each
+  callee's signature (a parameter the callee was translated with type unit gets tt; None / a class for optcls6 = None / Some).
+* netaddr/ip/__init__.py -> pysrc_uniq_gen.v (C05: iter_unique_ips).  `def f(*xs)` with xs declared a list takes the tuple of its
+  arguments as one list parameter; a generator of exactly the shape `for x in E: for y in x: yield y` is the list of what it
+  yields: py_flat_addrs E for a list E of IPNetwork objects (`for y in x` over an IPNetwork = py_net_addrs, the hand model of
+  IPListMixin.__iter__: IPAddress(first) .. IPAddress(last) as pairs); every other generator shape is rejected by FnG.
+* netaddr/ip/iana.py -> pysrc_ianab_gen.v (C19: MulticastParser.normalise_addr, DictUpdater.update).  `srec` = a record (dict of text) as
+  an association list: `d[k]` = py_srec_get (KeyError).  `self.dct[k] = v` must be the last statement of its path (SrcgPrepare.dict_items
+  checks tail position): the method answers the item (k, v) -- k as SrcPreludeG.ikeyview by its static class (IKNet / IKRange /
+  IKAddr) --, None on a path that stores nothing; the dict itself is not represented.  Text: `'c' in s` = contains_char,
+  `s.split('c')` = split, `s.strip()` = py_strip (PyStr.strip), `sep.join(l)` = join, `(a, b) = <list of text>` = py_unpack2g
+  (ValueError), `[str(int(x)) for x in xs]` = py_map_og of py_int_o 10 then fmt_d.  `IPAddress(<text>)` / `IPNetwork(<text>)` =
+  the translated constructors __init__:str with their literal defaults, `x = IPRange(<text>, <text>)` = the translated
+  IPRange.__init__:str, x being a refined IPRange operand afterwards (`x.cidrs()` = the translated method); a local that holds an
+  IPRange on one path and an IPNetwork on another is never joined (the continuation is translated once per path).
+* netaddr/core.py -> pysrc_core_gen.v (C12: num_bits).  The name is defined twice, `try: <probe>; def num_bits / except AttributeError: def
+  num_bits` at module level (shape checked by the wrapper of Module.function): entries `num_bits:bit_length` (the try body's
+  definition, the one in use) and `num_bits:fallback` (the handler's); `x.bit_length()` = py_num_bits (SrcPreludeCmp = Order.num_bits),
+  the truth value of an int in `while int_val:` = `!= 0`, fuel of that loop from FUEL (int_val + 1).
+* netaddr/contrib/subnet_splitter.py -> pysrc_splitterg_gen.v (C20: SubnetSplitter.__init__ on an IPNetwork argument), read by Fn itself.
+* netaddr/ip/sets.py -> pysrc_sets_g_gen.v (C07: IPSet.__iter__, __hash__, __reduce__, __repr__; read by FnG, the SRCA hooks are not active):
+  `sorted(self._cidrs)` = py_sorted_nets of the keys (SrcPreludeSets = Sets.sorted); `_itertools.chain(*l)` over IPNetwork objects = the
+  iterator as the list of what it yields, py_flat_addrs l; a method whose body is one `raise E` is `Raise E : outcome unit`;
+  `return self.__class__, (), <state>` (__reduce__) answers the state component (class and empty argument tuple are constants);
+  `'<text>%r<text>' % <list of text>` = Python's repr of a list of str, py_repr_strlist (Unsupported for an item that needs escaping);
+  `[str(c) for c in <IPNetwork objects>]` = py_map_og of the translated IPNetwork.__str__.
+* netaddr/ip/glob.py -> pysrc_globg_gen.v (C17: IPGlob.__repr__), read by FnGB, a subclass of FnB that adds `self.__class__.__name__`.
+* netaddr/compat.py: SRCG_COMPAT_EXPECT lists, for every compat name that some reader accepted on the strength of its import alone
+  (_int_type _str_type _dict_keys _dict_items _iter_next _range _bytes_join _importlib_resources), the source text its first binding
+  (the Python 3 branch) must be equal to as an AST; a name whose binding differs is removed from the import table of every parsed
+  module (wrapper of Module.__init__), so exactly the functions that use it stop translating.
 """
 import ast
 import os
@@ -7613,3 +7699,1294 @@ def assigned_names(stmts):
         if x not in out:
             out.append(x)
     return out
+
+
+# ==== SRCG: the remaining small functions (netaddr/ip/iana.py query / _within_bounds, ...) ==========================================
+# Units of SRCG_UNITS only, read by class FnG (a subclass of FnE registered through FN_CLASS); the text generated for every
+# other unit is untouched.  Readings: docstring paragraph SRCG.  Symbols: Model/SrcPreludeG.v.
+SRCG_UNITS = [
+    # C19: the IANA lookup.  `ikey` = a key object of an IANA_INFO dictionary together with its record (Model/Iana.v irow: the key is
+    # an IPNetwork, an IPRange or an IPAddress object -- DictUpdater.update makes nothing else); IANA_INFO is a Section variable of
+    # the generated file (a table symbol: dictionary name -> its rows in insertion order; the VALUES are regenerated data,
+    # harness/gen/iana.py -> Gen/iana_gen.v)
+    ("netaddr/ip/iana.py", "pysrc_iana_gen.v", "iana_", " Base.PyStr Model.Iana Model.SrcPreludeSRCE Model.SrcPreludeG",
+     [(None, "_within_bounds", {"ip": "obj", "ip_range": "ikey"}), (None, "query", {"ip_addr": "obj"})]),
+    # C19 / C08: the small methods of the identifier classes of netaddr/eui/__init__.py.  `oui` / `iab` = an OUI / IAB object (the
+    # integer it stands for, as for CTOR_AS_ARG); `orec` = a registration record, the dict with the six constant keys idx, oui |
+    # iab, org, address, offset, size as the tuple of their values in that order (what the translated _parse_data answers); the
+    # pseudo-parameter "self.<attr>" makes that attribute of the receiver a leading parameter; "self.*" lists the attributes a
+    # constructor-like method assigns (it answers the tuple of their final values)
+    ("netaddr/eui/__init__.py", "pysrc_euig_gen.v", "", " Base.PyStr Model.SrcPreludeStr Model.Eui Model.SrcPreludeEui Model.SrcPreludeEui2 Model.SrcPreludeSRCE Model.SrcPreludeViews Model.SrcPreludeG",
+     [(c, "%s:%s" % (m, c.lower()), {"other": c.lower()}) for c in ("OUI", "IAB") for m in ("__eq__", "__ne__")] +
+     [("OUI", "reg_count", {"self.records": "list orec"}), ("OUI", "registration", {"index": "int", "self.records": "list orec"}),
+      ("OUI", "__getstate__", {"self.records": "list orec"}), ("OUI", "__setstate__", {"state": "tup:int,list orec", "self.*": "_value,records"}),
+      ("IAB", "registration", {"self.record": "orec"}), ("IAB", "__getstate__", {"self.record": "orec"}),
+      ("IAB", "__setstate__", {"state": "tup:int,orec", "self.*": "_value,record"}),
+      ("OUI", "__repr__", {}), ("IAB", "__repr__", {}), ("BaseIdentifier", "__hex__", {}), ("BaseIdentifier", "__oct__", {}),
+      # the constructors on an int argument: the index dicts ieee.OUI_INDEX / ieee.IAB_INDEX and the registry files are Section
+      # variables of the generated file (SRCG_EUI_PREAMBLE)
+      ("OUI", "__init__:int", {"oui": "int", "self.*": "_value,records"}),
+      ("IAB", "__init__:int", {"iab": "int", "strict": "bool", "self.*": "_value,record"}),
+      # EUI.__repr__ (through the translated __str__, which reads the receiver's dialect) and EUI.info (`einfo` = the dict with the
+      # key 'OUI' and possibly 'IAB' as the pair (record, None-or-record))
+      ("EUI", "__repr__", {"self._dialect": "edialect"}), ("EUI", "info", {})]),
+]
+SRCG_UNITS.append(
+    # C19: netaddr/eui/ieee.py load_index.  `index` (an index dict, type eindex) is changed in place: the function answers the new
+    # dict; `fp` = the index file as the list of its lines; csv.reader is the Section variable CSV_READER (decoded lines -> rows)
+    ("netaddr/eui/ieee.py", "pysrc_ieeeg_gen.v", "ieee_", " Base.PyStr Model.SrcPreludeStr Model.SrcPreludeSRCE Model.SrcPreludeG",
+     [(None, "load_index", {"index": "eindex", "fp": "list str"})]))
+SRCG_UNITS.append(
+    # netaddr/ip/__init__.py, what was left: text renderings around the translated __str__ (C01 / C03 / C12), IPNetwork.ipv4 (C16)
+    (IPFILE, "pysrc_ipg_gen.v", "", " Base.PyStr Model.SrcPreludeStr Model.AddrText Model.SrcPreludeCtor Model.SrcPreludeSRCE Model.SrcPreludeG",
+     [("IPAddress", "__repr__", {}), ("IPNetwork", "__repr__", {}), ("IPRange", "__str__", {}), ("IPRange", "__repr__", {}),
+      ("IPAddress", "__oct__", {}), ("IPNetwork", "ipv4", {}),
+      # `darg6` = the dialect argument of format(): None | a dialect class with word_fmt (the pair (word_fmt, compact)) | another object
+      ("IPAddress", "format", {"dialect": "darg6"})]))
+SRCG_UNITS.append(
+    # C05: iter_unique_ips(*args) -- the argument tuple is one list parameter; the generator is the list of what it yields
+    (IPFILE, "pysrc_uniq_gen.v", "", " Model.Merge Model.SrcPreludeSRCE Model.SrcPreludeMerge Model.SrcPreludeG",
+     [(None, "iter_unique_ips", {"args": "list mitem"})]))
+SRCG_UNITS.append(
+    # C19: how the IANA dictionaries are filled (second unit over iana.py; no table symbol).  `srec` = a record as handed to the
+    # subscriber: a dict of text values = association list; update() answers the item (key object, record) it stores
+    ("netaddr/ip/iana.py", "pysrc_ianab_gen.v", "iana_", " Base.PyStr Model.SrcPreludeStr Model.AddrText Model.SrcPreludeCtor Model.Iana Model.SrcPreludeSRCE Model.SrcPreludeG",
+     [("MulticastParser", "normalise_addr", {"addr": "str"}),
+      ("DictUpdater", "update", {"data": "srec", "self.topic": "str", "self.unique_key": "str"})]))
+STATE["MulticastParser"] = STATE["DictUpdater"] = ()
+SRCG_UNITS.append(
+    # C12: netaddr/core.py num_bits -- both definitions: the one the module uses (`try:` probes int.bit_length, the def sits in
+    # the try body) and the fallback of the `except AttributeError:` handler (dead on every supported Python)
+    ("netaddr/core.py", "pysrc_core_gen.v", "core_", " Model.SrcPreludeSRCE Model.SrcPreludeCmp Model.SrcPreludeG",
+     [(None, "num_bits:bit_length", {"int_val": "int"}), (None, "num_bits:fallback", {"int_val": "int"})]))
+FUEL[(None, "num_bits:fallback", 1)] = ("int_val", 1)        # one `>>= 1` per iteration: at most int_val (in fact its bit length) of them
+SRCG_UNITS.append(
+    # C20: SubnetSplitter.__init__ on an IPNetwork argument (read by the base class Fn, as the other methods of that class:
+    # the state `_subnets` in, the new state out; IPNetwork(x) of an IPNetwork is a copy)
+    ("netaddr/contrib/subnet_splitter.py", "pysrc_splitterg_gen.v", "", " Model.SrcPreludeSplitter",
+     [("SubnetSplitter", "__init__", {"base_cidr": "net"})]))
+SRCG_PLAIN_FN = ("pysrc_splitterg_gen.v",)         # SRCG units read by Fn itself
+SRCG_UNITS.append(
+    # C06 / C07: what was left of netaddr/ip/sets.py (read by FnG; the SRCA hooks are not active here): the state `_cidrs` is the
+    # leading parameter self_cidrs (STATEVARS, type `dict` = the keys in insertion order)
+    (SETSFILE, "pysrc_sets_g_gen.v", "", " Base.PyStr Model.SrcPreludeStr Model.AddrText Model.SrcPreludeCtor Model.PySlice Model.SrcPreludeSplitter Model.SrcPreludeSets Model.SrcPreludeG",
+     [("IPSet", "__iter__", {}), ("IPSet", "__hash__", {}), ("IPSet", "__reduce__", {}), ("IPSet", "__repr__", {})]))
+# the constant keys of a registration record, in the order of the `orec` tuple (= the dict literal the class writes), per class
+SRCG_REC_KEYS = {"OUI": ("idx", "oui", "org", "address", "offset", "size"), "IAB": ("idx", "iab", "org", "address", "offset", "size")}
+SRCG_REC_TYPES = ("int", "str", "str", ("list", "str"), "int", "int")
+SRCG_INDEX = {"OUI_INDEX": "netaddr/eui/ieee.py", "IAB_INDEX": "netaddr/eui/ieee.py"}      # module-level `NAME = {}` of that file
+STATE["BaseIdentifier"] = ("v",)
+UNITS = UNITS + SRCG_UNITS
+FILES = FILES + tuple(u[1] for u in SRCG_UNITS)
+SRCG_OUT = tuple(u[1] for u in SRCG_UNITS)
+SRCG_TYPES = {"ikey": "irow", "irec": "irow", "sdict": "sdict", "oui": "Z", "iab": "Z",
+              "orec": "(Z * string * string * (list string) * Z * Z)", "eindex": "eindex", "zpair": "(Z * Z)", "darg6": "darg6", "cls6g": "(string * bool)",
+              "srec": "(list (string * string))", "ikv": "ikeyview", "einfo": "(orec * option orec)"}
+SRCG_IDCLASS = {"oui": "OUI", "iab": "IAB"}
+COQTY.update(SRCG_TYPES)
+SRCG_RESERVED = set("irow ikeyview IKNet IKRange IKAddr py_ikey_view sdict py_sd_new py_sd_setdefault py_sd_append IANA_INFO "
+                    "py_truthy py_fmt_oct py_fmt_hex py_index string append eindex py_eidx_mem py_eidx_get OUI_INDEX IAB_INDEX REGISTRY_FILE "
+                    "py_pair_of_list py_rec_set CSV_READER py_map_og py_triple_of_list py_eidx_setdefault py_eidx_append py_flat_addrs py_net_addrs darg6 D6None D6Class D6Other py_strip py_unpack2g py_srec_get split join contains_char py_repr_strlist py_sorted_nets".split())
+UNIT_PREAMBLE["pysrc_iana_gen.v"] = (
+    "(* IANA_INFO[name] for the four dictionaries the module creates: the rows (key object, record) in insertion order *)\n"
+    "Section WithTable.\nVariable IANA_INFO : string -> list irow.\n")
+UNIT_POSTAMBLE["pysrc_iana_gen.v"] = "\nEnd WithTable.\n"
+UNIT_PREAMBLE["pysrc_euig_gen.v"] = (
+    "(* the two index dicts of netaddr/eui/ieee.py (identifier -> its rows (offset, size), insertion order) and the registry files:\n"
+    "   REGISTRY_FILE name offset size = what `fh.seek(offset); fh.read(size).decode('UTF-8')` answers on the package file `name` *)\n"
+    "Section WithRegistry.\nVariable OUI_INDEX IAB_INDEX : eindex.\nVariable REGISTRY_FILE : string -> Z -> Z -> string.\n")
+UNIT_POSTAMBLE["pysrc_euig_gen.v"] = "\nEnd WithRegistry.\n"
+UNIT_PREAMBLE["pysrc_ieeeg_gen.v"] = (
+    "(* csv.reader over the decoded lines of an index file: the rows it yields (csv.Error and UnicodeDecodeError are not modelled) *)\n"
+    "Section WithCsv.\nVariable CSV_READER : list string -> list (list string).\n")
+UNIT_POSTAMBLE["pysrc_ieeeg_gen.v"] = "\nEnd WithCsv.\n"
+_is_value_before_SRCG = is_value
+
+
+def is_value(t):
+    if isinstance(t, tuple) and t and t[0] == "opnd":          # a refined operand (its field table is a dict: not hashable, and no Coq value)
+        return False
+    return (isinstance(t, str) and t in SRCG_TYPES) or _is_value_before_SRCG(t)
+
+
+def srcg_pseudo(name, args, at):
+    return ast.copy_location(ast.Call(func=ast.copy_location(ast.Name(id=name, ctx=ast.Load()), at), args=args, keywords=[]), at)
+
+
+def srcg_compat_dict_items():
+    """is netaddr.compat._dict_items (the Python 3 binding, the first in the file) `lambda x: list(x.items())`?"""
+    fn = "netaddr/compat.py"
+    tree = ast.parse(open(os.path.join(REPO, fn), encoding="utf-8").read())
+    binds = [n for n in ast.walk(tree) if isinstance(n, ast.Assign) and any(isinstance(t, ast.Name) and t.id == "_dict_items" for t in n.targets)]
+    other = [n for n in ast.walk(tree) if (isinstance(n, (ast.FunctionDef, ast.ClassDef)) and n.name == "_dict_items")
+             or (isinstance(n, ast.alias) and (n.asname or n.name) == "_dict_items")]
+    b = binds[0] if binds else None
+    ok = (b is not None and not other and len(b.targets) == 1 and isinstance(b.value, ast.Lambda) and len(b.value.args.args) == 1
+          and not b.value.args.defaults and ast.dump(b.value.body) == ast.dump(ast.parse("list(%s.items())" % b.value.args.args[0].arg, mode="eval").body))
+    if not ok:
+        bad(b, "compat._dict_items is not `lambda x: list(x.items())` the way the translator assumes", fn)
+    return True
+
+
+class SrcgPrepare(ast.NodeTransformer):
+    """rewrites of a function of an SRCG unit into statements the translator knows (the names __g_* are the translator's):
+    `d = {}` -> d = __g_sd_new();  `d.setdefault('k', [])` -> d = __g_sd_setdefault(d, 'k');  `d['k'].append(e)` -> d = __g_sd_append(d, 'k', e)
+    (d a local declared `sdict` by its first binding `d = {}`);  `for a, b in _dict_items(IANA_INFO['K']): body` ->
+    `for a__b in __g_iana_items('K'): a = __g_item_key(a__b); b = __g_item_value(a__b); body`"""
+
+    def __init__(self, fn, f):
+        self.fn, self.nitems = fn, 0
+        self.outparams = [x for x, t in getattr(fn, "g_types", {}).items() if t == "eindex" and x in [a.arg for a in f.args.args]]
+        self.sdicts = set(self.outparams) | {st.targets[0].id for st in ast.walk(f) if isinstance(st, ast.Assign) and len(st.targets) == 1
+                       and isinstance(st.targets[0], ast.Name) and isinstance(st.value, ast.Dict) and not st.value.keys}
+
+    def visit_Assign(self, st):
+        if (len(st.targets) == 1 and isinstance(st.targets[0], ast.Name) and st.targets[0].id in self.sdicts and isinstance(st.value, ast.Dict)
+                and not st.value.keys):
+            st.value = srcg_pseudo("__g_sd_new", [], st.value)
+            return st
+        return self.generic_visit(st)
+
+    def info_dict(self, f):
+        """EUI.info: `d = {'OUI': e}` -> d = __g_info_new(e); `d['IAB'] = e` -> d = __g_info_iab(d, e) (a dict with the key 'OUI' and
+        possibly 'IAB': the pair (record, None-or-record)); any other use of such a d than DictDotLookup(d) is rejected in FnG.call"""
+        ds = {st.targets[0].id for st in ast.walk(f) if isinstance(st, ast.Assign) and len(st.targets) == 1 and isinstance(st.targets[0], ast.Name)
+              and isinstance(st.value, ast.Dict) and [kk.value if isinstance(kk, ast.Constant) else None for kk in st.value.keys] == ["OUI"]}
+        if not ds:
+            return
+        for blk in [n for n in ast.walk(f) if isinstance(getattr(n, "body", None), list)]:
+            for fld in ("body", "orelse"):
+                stmts = getattr(blk, fld, None)
+                if not isinstance(stmts, list):
+                    continue
+                for i, st in enumerate(stmts):
+                    if (isinstance(st, ast.Assign) and len(st.targets) == 1 and isinstance(st.targets[0], ast.Name) and st.targets[0].id in ds
+                            and isinstance(st.value, ast.Dict)):
+                        st.value = srcg_pseudo("__g_info_new", [st.value.values[0]], st.value)
+                    elif (isinstance(st, ast.Assign) and len(st.targets) == 1 and isinstance(st.targets[0], ast.Subscript)
+                          and isinstance(st.targets[0].value, ast.Name) and st.targets[0].value.id in ds
+                          and isinstance(st.targets[0].slice, ast.Constant) and st.targets[0].slice.value == "IAB"):
+                        d = st.targets[0].value
+                        stmts[i] = ast.copy_location(ast.Assign(
+                            targets=[ast.copy_location(ast.Name(id=d.id, ctx=ast.Store()), d)],
+                            value=srcg_pseudo("__g_info_iab", [ast.copy_location(ast.Name(id=d.id, ctx=ast.Load()), d), st.value], st)), st)
+
+    def visit_Expr(self, st):
+        v = st.value
+        if (isinstance(v, ast.Call) and isinstance(v.func, ast.Attribute) and not v.keywords and isinstance(v.func.value, ast.Name)
+                and v.func.value.id in self.sdicts and v.func.attr == "setdefault" and len(v.args) == 2 and isinstance(v.args[1], ast.List)
+                and not v.args[1].elts):
+            d = v.func.value
+            return ast.copy_location(ast.Assign(targets=[ast.copy_location(ast.Name(id=d.id, ctx=ast.Store()), d)],
+                                                value=srcg_pseudo("__g_sd_setdefault", [d, v.args[0]], v)), st)
+        if (isinstance(v, ast.Call) and isinstance(v.func, ast.Attribute) and not v.keywords and v.func.attr == "append" and len(v.args) == 1
+                and isinstance(v.func.value, ast.Subscript) and isinstance(v.func.value.value, ast.Name) and v.func.value.value.id in self.sdicts
+                and not isinstance(v.func.value.slice, ast.Slice)):
+            d = v.func.value.value
+            return ast.copy_location(ast.Assign(targets=[ast.copy_location(ast.Name(id=d.id, ctx=ast.Store()), d)],
+                                                value=srcg_pseudo("__g_sd_append", [d, v.func.value.slice, v.args[0]], v)), st)
+        return self.generic_visit(st)
+
+    def visit_Try(self, st):
+        """try: BODY / finally: <parameter>.close() -> BODY (closing the file has no effect the model sees; an exception of BODY
+        leaves the function either way)"""
+        fb = st.finalbody[0].value if len(st.finalbody) == 1 and isinstance(st.finalbody[0], ast.Expr) else None
+        if (not st.handlers and not st.orelse and isinstance(fb, ast.Call) and isinstance(fb.func, ast.Attribute) and fb.func.attr == "close"
+                and not fb.args and not fb.keywords and isinstance(fb.func.value, ast.Name)
+                and getattr(self.fn, "g_types", {}).get(fb.func.value.id) == "list str"):
+            return [self.visit(x) for x in st.body]
+        return self.generic_visit(st)
+
+    def visit_Call(self, n):
+        n = self.generic_visit(n)
+        a = n.args[0] if len(n.args) == 1 and not n.keywords else None
+        if (dotted(n.func) == "_csv.reader" and isinstance(a, ast.ListComp) and len(a.generators) == 1 and not a.generators[0].ifs
+                and isinstance(a.generators[0].target, ast.Name) and isinstance(a.generators[0].iter, ast.Name)
+                and getattr(self.fn, "g_types", {}).get(a.generators[0].iter.id) == "list str"
+                and ast.dump(a.elt) == ast.dump(ast.parse("%s.decode('UTF-8')" % a.generators[0].target.id, mode="eval").body)):
+            # _csv.reader([x.decode('UTF-8') for x in fp]) for the file fp (its lines): the rows of the decoded lines
+            if not FnF.plain_import(self.fn, "_csv", "csv"):
+                bad(n, "_csv is not bound by `import csv as _csv` alone")
+            return srcg_pseudo("__g_csv_rows", [a.generators[0].iter], n)
+        return n
+
+    def dict_items(self, f):
+        """`self.dct[k] = v` as the last statement of its path (tail position: last in its block, the enclosing ifs last in theirs):
+        the method answers the item (k, v) it stores -> return __g_dict_item(k, v)"""
+        def tail(stmts):
+            for st in stmts[:-1]:
+                if any(isinstance(n, ast.Subscript) and dotted(n.value) == "self.dct" for n in ast.walk(st)):
+                    bad(st, "self.dct[..] used before the end of a path")
+            last = stmts[-1] if stmts else None
+            if isinstance(last, ast.If):
+                tail(last.body)
+                tail(last.orelse)
+            elif (isinstance(last, ast.Assign) and len(last.targets) == 1 and isinstance(last.targets[0], ast.Subscript)
+                  and dotted(last.targets[0].value) == "self.dct" and not isinstance(last.targets[0].slice, ast.Slice)):
+                stmts[-1] = ast.copy_location(ast.Return(value=srcg_pseudo("__g_dict_item", [last.targets[0].slice, last.value], last)), last)
+            elif last is not None and any(isinstance(n, ast.Subscript) and dotted(n.value) == "self.dct" for n in ast.walk(last)):
+                bad(last, "use of self.dct other than `self.dct[k] = v` at the end of a path")
+        if any(isinstance(n, ast.Attribute) and dotted(n) == "self.dct" for n in ast.walk(f)):
+            if any(isinstance(n, ast.Return) for n in ast.walk(f)):
+                bad(f, "a method that stores into self.dct and returns")
+            tail(f.body)
+
+    def visit_FunctionDef(self, f):
+        self.dict_items(f)
+        self.info_dict(f)
+        a = f.args
+        if a.vararg is not None and not (a.args or a.kwarg or a.kwonlyargs or a.posonlyargs or a.defaults) and is_list(
+                parse_type(getattr(self.fn, "g_types", {}).get(a.vararg.arg, ""))):
+            # def f(*xs) with xs declared a list: the tuple of the arguments is one list parameter
+            a.args, a.vararg = [ast.copy_location(ast.arg(arg=a.vararg.arg), a.vararg)], None
+        body = [st for st in f.body if not (isinstance(st, ast.Expr) and isinstance(st.value, ast.Constant))]
+        lp = body[0] if len(body) == 1 and isinstance(body[0], ast.For) else None
+        inner = lp.body[0] if lp is not None and len(lp.body) == 1 and isinstance(lp.body[0], ast.For) else None
+        y = inner.body[0].value if inner is not None and len(inner.body) == 1 and isinstance(inner.body[0], ast.Expr) else None
+        if any(isinstance(n, (ast.Yield, ast.YieldFrom)) for n in ast.walk(f)) and getattr(self.fn, "variant", "") not in ("start", "next"):
+            # a generator `for x in E: for y in x: yield y` (nothing else): the list of what it yields = the addresses of the
+            # IPNetwork objects of the list E, one after the other -> return __g_flat_addrs(E); every other generator shape is rejected
+            if not (isinstance(y, ast.Yield) and isinstance(y.value, ast.Name) and isinstance(inner.target, ast.Name)
+                    and y.value.id == inner.target.id and isinstance(lp.target, ast.Name) and isinstance(inner.iter, ast.Name)
+                    and inner.iter.id == lp.target.id and lp.target.id != inner.target.id and not lp.orelse and not inner.orelse
+                    and not any(isinstance(n, ast.Name) and n.id in (lp.target.id, inner.target.id) for n in ast.walk(lp.iter))):
+                bad(f, "generator other than `for x in E: for y in x: yield y`")
+            ret = ast.copy_location(ast.Return(value=srcg_pseudo("__g_flat_addrs", [lp.iter], lp)), lp)
+            f.body = [st for st in f.body if st is not lp] + [ret]
+        f = self.generic_visit(f)
+        if self.outparams:                    # a dict parameter changed in place: the function answers the new dict(s)
+            if any(isinstance(n, ast.Return) for n in ast.walk(f)) or len(self.outparams) != 1:
+                bad(f, "a function that changes a dict parameter in place and returns")
+            ret = ast.copy_location(ast.Return(value=ast.copy_location(ast.Name(id=self.outparams[0], ctx=ast.Load()), f.body[-1])), f.body[-1])
+            ret.lineno = ret.end_lineno = f.end_lineno
+            f.body.append(ret)
+        return f
+
+    def visit_For(self, st):
+        st = self.generic_visit(st)
+        it, tg = st.iter, st.target
+        if (isinstance(it, ast.Call) and dotted(it.func) == "_dict_items" and len(it.args) == 1 and not it.keywords
+                and isinstance(it.args[0], ast.Subscript) and dotted(it.args[0].value) == "IANA_INFO"
+                and isinstance(tg, ast.Tuple) and len(tg.elts) == 2 and all(isinstance(x, ast.Name) for x in tg.elts)):
+            if self.fn.mod.imports.get("_dict_items") != "netaddr.compat._dict_items" or not srcg_compat_dict_items():
+                bad(st, "_dict_items is not netaddr.compat._dict_items")
+            self.nitems += 1             # one name per loop (a later loop may reuse the two targets)
+            item = "%s__%s__%d" % (tg.elts[0].id, tg.elts[1].id, self.nitems)
+            load = lambda: ast.copy_location(ast.Name(id=item, ctx=ast.Load()), tg)
+            pre = [ast.copy_location(ast.Assign(targets=[ast.copy_location(ast.Name(id=x.id, ctx=ast.Store()), x)],
+                                                value=srcg_pseudo(f, [load()], x)), x)
+                   for x, f in zip(tg.elts, ("__g_item_key", "__g_item_value"))]
+            st.target = ast.copy_location(ast.Name(id=item, ctx=ast.Store()), tg)
+            st.iter = srcg_pseudo("__g_iana_items", [it.args[0].slice], it)
+            st.body = pre + st.body
+        return st
+
+
+SRCG_PICK = [None]         # which of the two definitions of core.num_bits Module.function answers while FnG reads that unit
+_module_function_before_SRCG = Module.function
+
+
+def _srcg_module_function(self, name):
+    if self.fn == "netaddr/core.py" and name == "num_bits" and SRCG_PICK[-1] in ("bit_length", "fallback"):
+        # `try: <probe>; def num_bits(..): .. / except AttributeError: def num_bits(..): ..` at module level, nothing else binds the name
+        tries = [t for t in self.tree.body if isinstance(t, ast.Try) and any(isinstance(n, ast.FunctionDef) and n.name == name for n in ast.walk(t))]
+        defs = [n for n in ast.walk(self.tree) if isinstance(n, ast.FunctionDef) and n.name == name]
+        other = [n for n in ast.walk(self.tree) if isinstance(n, ast.Name) and n.id == name and isinstance(n.ctx, ast.Store)]
+        t = tries[0] if len(tries) == 1 else None
+        a = [st for st in (t.body if t else []) if isinstance(st, ast.FunctionDef) and st.name == name]
+        b = [st for h in (t.handlers if t else []) for st in h.body if isinstance(st, ast.FunctionDef) and st.name == name]
+        if (t is None or other or len(defs) != 2 or len(a) != 1 or len(b) != 1 or len(t.handlers) != 1 or dotted(t.handlers[0].type) != "AttributeError"
+                or t.orelse or t.finalbody or a[0].decorator_list or b[0].decorator_list):
+            bad(defs[0] if defs else None, "core.num_bits is not defined once in a try body and once in its `except AttributeError` handler")
+        return a[0] if SRCG_PICK[-1] == "bit_length" else b[0]
+    return _module_function_before_SRCG(self, name)
+
+
+Module.function = _srcg_module_function
+
+
+class FnG(FnE):
+    """the constructs of the SRCG units (docstring paragraph SRCG); everything else goes to FnE / Fn unchanged"""
+
+    def prepare(self, f):
+        import copy
+        f = super().prepare(f)
+        if any(isinstance(n, ast.Name) and n.id.startswith("__g_") for n in ast.walk(f)):
+            bad(f, "a name starting with __g_ (reserved for the translator)")
+        f = SrcgPrepare(self, f).visit(copy.deepcopy(f))
+        attrs = self.state_attrs()
+        if attrs and self.pyname == "__init__":
+            f = self.prepare_ctor(f)
+        if attrs:
+            # a constructor-like method ("self.*"): the listed attributes are locals self__<attr>, unbound at entry; the method must
+            # not return a value; it answers the tuple of their final values
+            if any(isinstance(n, ast.Return) and n.value is not None for n in ast.walk(f)):
+                bad(f, "a method declared with \"self.*\" returns a value")
+
+            class S(ast.NodeTransformer):
+                def visit_Attribute(self, n):
+                    if isinstance(n.value, ast.Name) and n.value.id == "self" and n.attr in attrs:
+                        return ast.copy_location(ast.Name(id="self__" + n.attr, ctx=n.ctx), n)
+                    return self.generic_visit(n)
+
+                def visit_Return(self, n):
+                    return ast.copy_location(ast.Return(value=final(n)), n)
+
+            def final(at):
+                xs = [ast.copy_location(ast.Name(id="self__" + a, ctx=ast.Load()), at) for a in attrs]
+                return xs[0] if len(xs) == 1 else ast.copy_location(ast.Tuple(elts=xs, ctx=ast.Load()), at)
+            f = S().visit(f)
+            if not isinstance(f.body[-1], (ast.Return, ast.Raise)):
+                ret = ast.copy_location(ast.Return(value=final(f.body[-1])), f.body[-1])
+                ret.lineno = ret.end_lineno = f.end_lineno
+                f.body.append(ret)
+        return ast.fix_missing_locations(f)
+
+    def __init__(self, tr, recv, name, ptypes):
+        self.g_types = dict(ptypes)
+        SRCG_PICK.append(name.partition(":")[2] if tr.out == "pysrc_core_gen.v" else None)
+        try:
+            super().__init__(tr, recv, name, {k: v for k, v in ptypes.items() if not k.startswith("self.")})
+        finally:
+            SRCG_PICK.pop()
+
+    def bool_(self, node, env):
+        if isinstance(node, ast.Name) and env.get(node.id, ("",))[0] == "int" and self.tr.out == "pysrc_core_gen.v":
+            return "(negb (%s =? 0))" % env[node.id][1]        # the truth value of an int
+        return super().bool_(node, env)
+
+    def unit_init(self, env):
+        """pseudo-parameters "self.<attr>" (the attribute is a leading parameter of the method), parameter types "tup:t1,t2,.." """
+        super().unit_init(env)
+        lead = []
+        for key, ty in getattr(self, "g_types", {}).items():
+            if key.startswith("self.") and key != "self.*":
+                cn = self.coqname(self.f, "self_" + key[5:])
+                self.attrs[key] = (parse_type(ty), cn)
+                lead.append((cn, parse_type(ty)))
+        self.params[:0] = lead
+        for i, (cn, ty) in enumerate(self.params):
+            if isinstance(ty, str) and ty.startswith("tup:"):
+                ty = ("tup", tuple(parse_type(x) for x in ty[4:].split(",")))
+                self.params[i] = (cn, ty)
+                for key, val in env.items():
+                    if not key.startswith("@") and val[1] == cn:
+                        env[key] = (ty, cn)
+
+    def prepare_ctor(self, f):
+        """the constructor of an identifier class (OUI / IAB), rewritten into statements the translator knows:
+        `super(C, self).__init__()` -> the body of the base class's __init__ (constant attribute assignments);
+        `from netaddr.eui import ieee` -> dropped (ieee.OUI_INDEX / ieee.IAB_INDEX are table symbols, see call / rhs);
+        `fh = _importlib_resources.open_binary(__package__, '<file>')` and `fh.close()` -> dropped, and
+        `fh.seek(o); x = fh.read(n).decode('UTF-8')` (adjacent) -> x = __g_file_read('<file>', o, n); any other use of fh is rejected;
+        `self.record = {<the six constant keys>}` -> self.record = __g_rec_new(<values in key order>);
+        `self.record['k'] = e` -> self.record = __g_rec_set(self.record, 'k', e);
+        the statement `self._parse_data(a, b, c)` -> OUI: self.records = self.records + [__g_parse_data(a, b, c)] (the callee's only
+        effect is its last statement self.records.append(record): it answers that record); IAB: self.record = __g_parse_data(a, b, c)
+        (the callee's only effect are its assignments self.record[..] = ..: it answers the new record);
+        `for (a, b) in e` -> `for a__b__N in e: (a, b) = a__b__N`."""
+        import copy
+        fn, cls, files, n = self, self.recv, {}, [0]
+        keys = SRCG_REC_KEYS.get(cls)
+        if keys is None:
+            bad(f, "constructor of %s" % cls)
+
+        def attr(name, ctx, at):
+            return ast.copy_location(ast.Attribute(value=ast.copy_location(ast.Name(id="self", ctx=ast.Load()), at), attr=name, ctx=ctx()), at)
+
+        def walk(stmts):
+            out, i = [], 0
+            while i < len(stmts):
+                st, nxt = stmts[i], stmts[i + 1] if i + 1 < len(stmts) else None
+                i += 1
+                v = st.value if isinstance(st, ast.Expr) else None
+                if (isinstance(v, ast.Call) and isinstance(v.func, ast.Attribute) and v.func.attr == "__init__" and isinstance(v.func.value, ast.Call)
+                        and dotted(v.func.value.func) == "super" and not fn.mod.toplevel("super") and not v.args and not v.keywords
+                        and [dotted(x) for x in v.func.value.args] == [fn.owner, "self"]):
+                    bases = [dotted(b) for b in fn.mod.classes[fn.owner].bases]
+                    r = fn.mod.lookup(bases[0], "__init__") if len(bases) == 1 else None
+                    body = [x for x in (r[1].body if r else []) if not (isinstance(x, ast.Expr) and isinstance(x.value, ast.Constant))]
+                    if not r or len(r[1].args.args) != 1 or r[1].args.args[0].arg != "self" or any(
+                            not (isinstance(x, ast.Assign) and len(x.targets) == 1 and (dotted(x.targets[0]) or "").startswith("self.")
+                                 and isinstance(x.value, ast.Constant)) for x in body):
+                        bad(st, "super().__init__() of a base class whose __init__ is not a list of constant attribute assignments")
+                    out += copy.deepcopy(body)
+                    continue
+                if isinstance(st, ast.ImportFrom):
+                    if st.module != "netaddr.eui" or [(a.name, a.asname) for a in st.names] != [("ieee", None)] or st.level:
+                        bad(st, "import inside a function other than `from netaddr.eui import ieee`")
+                    continue
+                if (isinstance(st, ast.Assign) and len(st.targets) == 1 and isinstance(st.targets[0], ast.Name) and isinstance(st.value, ast.Call)
+                        and dotted(st.value.func) == "_importlib_resources.open_binary" and len(st.value.args) == 2 and not st.value.keywords
+                        and dotted(st.value.args[0]) == "__package__" and isinstance(st.value.args[1], ast.Constant)
+                        and isinstance(st.value.args[1].value, str)
+                        and fn.mod.imports.get("_importlib_resources") == "netaddr.compat._importlib_resources"):
+                    files[st.targets[0].id] = st.value.args[1]
+                    continue
+                if isinstance(v, ast.Call) and isinstance(v.func, ast.Attribute) and isinstance(v.func.value, ast.Name) and v.func.value.id in files:
+                    fh = v.func.value.id
+                    if v.func.attr == "close" and not v.args and not v.keywords:
+                        continue
+                    r = nxt.value if isinstance(nxt, ast.Assign) and len(nxt.targets) == 1 and isinstance(nxt.targets[0], ast.Name) else None
+                    if (v.func.attr == "seek" and len(v.args) == 1 and not v.keywords and isinstance(r, ast.Call) and isinstance(r.func, ast.Attribute)
+                            and r.func.attr == "decode" and len(r.args) == 1 and not r.keywords and isinstance(r.args[0], ast.Constant)
+                            and r.args[0].value == "UTF-8" and isinstance(r.func.value, ast.Call) and dotted(r.func.value.func) == fh + ".read"
+                            and len(r.func.value.args) == 1 and not r.func.value.keywords):
+                        nxt.value = srcg_pseudo("__g_file_read", [files[fh], v.args[0], r.func.value.args[0]], r)
+                        continue
+                    bad(st, "use of the file %s other than seek(o); x = read(n).decode('UTF-8') / close()" % fh)
+                if (isinstance(st, ast.Assign) and len(st.targets) == 1 and dotted(st.targets[0]) == "self.record" and isinstance(st.value, ast.Dict)):
+                    d = st.value
+                    if [kk.value if isinstance(kk, ast.Constant) else None for kk in d.keys] != list(keys):
+                        bad(st, "record literal whose keys are not %s" % (keys,))
+                    st.value = srcg_pseudo("__g_rec_new", d.values, d)
+                    out.append(st)
+                    continue
+                if (isinstance(st, ast.Assign) and len(st.targets) == 1 and isinstance(st.targets[0], ast.Subscript)
+                        and dotted(st.targets[0].value) == "self.record" and isinstance(st.targets[0].slice, ast.Constant)):
+                    out.append(ast.copy_location(ast.Assign(targets=[attr("record", ast.Store, st)], value=srcg_pseudo(
+                        "__g_rec_set", [attr("record", ast.Load, st), st.targets[0].slice, st.value], st)), st))
+                    continue
+                if isinstance(v, ast.Call) and dotted(v.func) == "self._parse_data" and not v.keywords:
+                    fn.check_parse_data(st, cls)
+                    call = srcg_pseudo("__g_parse_data", [attr("_value", ast.Load, st)] + ([attr("record", ast.Load, st)] if cls == "IAB" else [])
+                                       + v.args, v)          # (the state the callee reads is named, so that a loop carries it)
+                    if cls == "OUI":
+                        call = ast.copy_location(ast.BinOp(left=attr("records", ast.Load, st), op=ast.Add(),
+                                                           right=ast.copy_location(ast.List(elts=[call], ctx=ast.Load()), st)), st)
+                    out.append(ast.copy_location(ast.Assign(targets=[attr("records" if cls == "OUI" else "record", ast.Store, st)], value=call), st))
+                    continue
+                if isinstance(st, ast.For) and isinstance(st.target, ast.Tuple) and all(isinstance(x, ast.Name) for x in st.target.elts):
+                    n[0] += 1
+                    item = "__".join([x.id for x in st.target.elts] + [str(n[0])])
+                    unpack = ast.copy_location(ast.Assign(targets=[st.target], value=ast.copy_location(ast.Name(id=item, ctx=ast.Load()), st.target)), st.target)
+                    st.target = ast.copy_location(ast.Name(id=item, ctx=ast.Store()), st.target)
+                    st.body = [unpack] + st.body
+                for fld in ("body", "orelse", "finalbody"):
+                    if isinstance(getattr(st, fld, None), list) and not isinstance(st, (ast.FunctionDef, ast.ClassDef)):
+                        setattr(st, fld, walk(getattr(st, fld)) or ([ast.copy_location(ast.Pass(), st)] if fld == "body" else []))
+                out.append(st)
+            return out
+        f.body = walk(f.body)
+        if any(isinstance(x, ast.Name) and x.id in files for x in ast.walk(f)):
+            bad(f, "the file object is used in a way the translator does not read")
+        return f
+
+    def check_parse_data(self, node, cls):
+        """the effect of <cls>._parse_data on the object as the reading above needs it (the same reading as the SRCF unit that translates it)"""
+        r = self.mod.lookup(cls, "_parse_data")
+        g = r[1] if r and not r[2] else None
+        if g is None:
+            bad(node, "%s._parse_data not found" % cls)
+        sets = [x for x in ast.walk(g) if isinstance(x, ast.Attribute) and isinstance(x.value, ast.Name) and x.value.id == "self"]
+        if cls == "OUI":
+            last = g.body[-1].value if isinstance(g.body[-1], ast.Expr) else None
+            ok = (isinstance(last, ast.Call) and dotted(last.func) == "self.records.append" and len(last.args) == 1 and not last.keywords
+                  and all(x.attr in ("records", "_value") or x is last.func.value for x in sets) and sum(x.attr == "records" for x in sets) == 1
+                  and all(isinstance(x.ctx, ast.Load) for x in sets))
+        else:
+            ok = all(x.attr in ("record", "_value") and isinstance(x.ctx, ast.Load) for x in sets) and not any(
+                isinstance(x, ast.Return) and x.value is not None for x in ast.walk(g))
+        if not ok:
+            bad(node, "%s._parse_data touches the object in a way the translator does not read" % cls)
+
+    def state_attrs(self):
+        return [a for a in getattr(self, "g_types", {}).get("self.*", "").split(",") if a]
+
+    def coqname(self, node, name):
+        if name in SRCG_RESERVED:
+            name_ = name + "_"
+            if self.used.setdefault(name_, name) != name:
+                bad(node, "identifier clash on %s" % name_)
+            return name_
+        return super().coqname(node, name)
+
+    # ---- which attributes do the objects of a netaddr.ip class have (classes with __slots__ through all their bases)?
+    def class_hasattr(self, node, cls, attr):
+        mod = self.tr.modof(cls)
+        if cls not in mod.classes:
+            bad(node, "hasattr on an object of class %s, which is not a class of netaddr/ip/__init__.py" % cls)
+        slots = set()
+        for c in mod.ancestors(cls):
+            if c == "object":
+                continue
+            cd = mod.classes.get(c)
+            ss = [st for st in (cd.body if cd else []) if isinstance(st, ast.Assign) and any(dotted(t) == "__slots__" for t in st.targets)]
+            if cd is None or len(ss) != 1 or not isinstance(ss[0].value, (ast.Tuple, ast.List)) or not all(
+                    isinstance(x, ast.Constant) and isinstance(x.value, str) for x in ss[0].value.elts):
+                bad(node, "class %s has no literal __slots__ (its instances may have any attribute)" % c)
+            slots |= {x.value for x in ss[0].value.elts}
+            if any(isinstance(st, ast.FunctionDef) and st.name in ("__getattr__", "__getattribute__") for st in cd.body):
+                bad(node, "class %s defines __getattr__" % c)
+        if attr in slots:
+            bad(node, "hasattr(<%s object>, %r): a slot, set or not" % (cls, attr))
+        if mod.lookup(cls, attr) is not None:
+            return True
+        for c in mod.ancestors(cls):            # any other class-level binding of the name
+            cd = mod.classes.get(c)
+            if cd is not None and any(isinstance(n, ast.Name) and n.id == attr and isinstance(n.ctx, ast.Store) for st in cd.body
+                                      if not isinstance(st, ast.FunctionDef) for n in ast.walk(st)):
+                return True
+        return False
+
+    def class_of_var(self, x, env):
+        ty = env.get(x, ("",))[0]
+        if ty == "net":
+            return "IPNetwork"
+        if ty == "obj":
+            return "IPAddress"
+        if isinstance(ty, tuple) and ty[0] == "opnd" and ty[1] in KINDCLASS:
+            return KINDCLASS[ty[1]]
+        return None
+
+    def if_(self, s, rest, env, k, after):
+        t = s.test
+        if (isinstance(t, ast.Call) and dotted(t.func) == "hasattr" and "hasattr" not in env and not self.mod.toplevel("hasattr")
+                and len(t.args) == 2 and not t.keywords and isinstance(t.args[0], ast.Name) and isinstance(t.args[1], ast.Constant)
+                and isinstance(t.args[1].value, str)):
+            x = t.args[0].id
+            if env.get(x, ("",))[0] == "ikey":
+                # the key object of an IANA_INFO row: an IPNetwork, an IPRange or an IPAddress object (SrcPreludeG.py_ikey_view);
+                # inside each arm the test (and every later hasattr / in / ==) is decided by the class
+                hn, hv, hs, he, ha = [self.fresh() for _ in range(5)]
+                nenv, renv, aenv = dict(env), dict(env), dict(env)
+                nenv[x], renv[x], aenv[x] = ("net", hn), (("opnd", "ORng", {"ver": hv, "s": hs, "e": he}), None), ("obj", self.objvar(ha))
+                return ("omatch", "(py_ikey_view %s)" % env[x][1], [
+                    ("IKNet", [hn], self.block([s] + rest, nenv, k, after)), ("IKRange", [hv, hs, he], self.block([s] + rest, renv, k, after)),
+                    ("IKAddr", [ha], self.block([s] + rest, aenv, k, after))])
+            cls = self.class_of_var(x, env)
+            if cls is not None:
+                yes = self.class_hasattr(s, cls, t.args[1].value)
+                return self.block((s.body if yes else s.orelse) + rest, env, k, after)
+        neg = isinstance(t, ast.UnaryOp) and isinstance(t.op, ast.Not)
+        h = t.operand if neg else t
+        if (isinstance(h, ast.Call) and dotted(h.func) == "hasattr" and "hasattr" not in env and not self.mod.toplevel("hasattr")
+                and len(h.args) == 2 and not h.keywords and isinstance(h.args[0], ast.Name) and isinstance(h.args[1], ast.Constant)
+                and h.args[1].value == "word_fmt" and env.get(h.args[0].id, ("",))[0] in ("cls6g", "other6")):
+            yes = (env[h.args[0].id][0] == "cls6g") != neg       # a dialect class has word_fmt, the `other object` of darg6 has not
+            return self.block((s.body if yes else s.orelse) + rest, env, k, after)
+        if (isinstance(t, ast.Compare) and len(t.ops) == 1 and isinstance(t.ops[0], (ast.Is, ast.IsNot)) and isinstance(t.left, ast.Name)
+                and isinstance(t.comparators[0], ast.Constant) and t.comparators[0].value is None):
+            x, isnot = t.left.id, isinstance(t.ops[0], ast.IsNot)
+            ty = env.get(x, ("",))[0]
+            if ty == "darg6":                     # split into the three kinds of argument; the test is decided inside each arm
+                hc = self.fresh()
+                nenv, cenv, oenv = dict(env), dict(env), dict(env)
+                nenv[x], cenv[x], oenv[x] = ("none", None), ("cls6g", hc), ("other6", None)
+                return ("omatch", env[x][1], [("D6None", [], self.block([s] + rest, nenv, k, after)),
+                                              ("D6Class", [hc], self.block([s] + rest, cenv, k, after)),
+                                              ("D6Other", [], self.block([s] + rest, oenv, k, after))])
+            if ty in ("none", "cls6g", "other6"):
+                yes = (ty == "none") != isnot
+                return self.block((s.body if yes else s.orelse) + rest, env, k, after)
+        return super().if_(s, rest, env, k, after)
+
+    def isinstance_(self, s, t, neg, rest, env, k, after):
+        x = t.args[0].id if len(t.args) == 2 and isinstance(t.args[0], ast.Name) else None
+        if x is not None and isinstance(env.get(x, ("",))[0], str) and env.get(x, ("",))[0] in SRCG_IDCLASS and not t.keywords and isinstance(t.args[1], ast.Name):
+            cls = SRCG_IDCLASS[env[x][0]]           # a parameter declared to be an OUI / IAB object: decided by the class hierarchy
+            if cls not in self.mod.classes or t.args[1].id not in self.mod.classes or t.args[1].id in env:
+                bad(s, "isinstance against %s, which is not a class of this module" % t.args[1].id)
+            isa = t.args[1].id in self.mod.ancestors(cls)
+            if not isa and cls in self.mod.ancestors(t.args[1].id):
+                bad(s, "isinstance against %s, a subclass of %s" % (t.args[1].id, cls))
+            return self.block((s.body if isa != neg else s.orelse) + rest, env, k, after)
+        if (x is not None and env.get(x, ("",))[0] in ("int", "str") and not t.keywords and isinstance(t.args[1], ast.Name) and t.args[1].id == "str"
+                and "str" not in env and not self.mod.toplevel("str") and x in [a.arg for a in self.f.args.args]):
+            isa = env[x][0] == "str"                 # isinstance(<parameter declared int / str>, str): decided by the declared type
+            return self.block((s.body if isa != neg else s.orelse) + rest, env, k, after)
+        return super().isinstance_(s, t, neg, rest, env, k, after)
+
+    def opnd_of(self, node, ty, t):
+        """the operand term of an IPAddress / IPNetwork / IPRange valued expression"""
+        if ty == "obj":
+            return "(OAddr %s %s)" % (t[0], t[2])
+        if ty == "net":
+            return "(ONet (nver %s) (nval %s) (nplen %s))" % (t, t, t)
+        if isinstance(ty, tuple) and ty[0] == "opnd" and ty[1] in KINDCLASS:
+            return "(%s %s)" % (ty[1], " ".join(ty[2][f] for f in dict(OPERAND)[ty[1]]))
+        bad(node, "%s where an IPAddress, IPNetwork or IPRange object is needed" % show(ty))
+
+    def state_of(self, node, ty, t):
+        """(class, state terms) of such an expression as the receiver of a translated method"""
+        if ty == "obj":
+            return "IPAddress", " ".join(t[:3])
+        if ty == "net":
+            return "IPNetwork", self.net_state(t)
+        if isinstance(ty, tuple) and ty[0] == "opnd" and ty[1] in KINDCLASS:
+            fl = ty[2]
+            return KINDCLASS[ty[1]], " ".join([fl["ver"], "(width %s)" % fl["ver"]] + [fl[x] for x in dict(OPERAND)[ty[1]][1:]])
+        bad(node, "%s where an IPAddress, IPNetwork or IPRange object is needed" % show(ty))
+
+    def objname(self, node, env):
+        """(type, term) of a NAME bound to a BaseIP object (also a refined operand, which Fn.rhs does not answer), else None"""
+        if isinstance(node, ast.Name) and node.id in env and self.class_of_var(node.id, env) is not None:
+            return env[node.id]
+        return None
+
+    def rhs(self, node, env):
+        if isinstance(node, ast.Compare) and len(node.ops) == 1 and isinstance(node.ops[0], (ast.In, ast.Eq, ast.NotEq)):
+            l, r = self.objname(node.left, env), self.objname(node.comparators[0], env)
+            if l is not None and r is not None and isinstance(node.ops[0], ast.In) and r[0] != "obj":
+                cls, state = self.state_of(node, *r)         # x in y: the translated __contains__ of y's class
+                return self.generated(node, cls, "__contains__", state, [("operand", self.opnd_of(node, *l))])
+            if l is not None and r is not None and not isinstance(node.ops[0], ast.In):
+                cls, state = self.state_of(node, *l)         # x == y / x != y: the translated __eq__ / __ne__ of x's class
+                return self.generated(node, cls, "__eq__" if isinstance(node.ops[0], ast.Eq) else "__ne__", state,
+                                      [("operand", self.opnd_of(node, *r))])
+        if (isinstance(node, ast.Compare) and len(node.ops) == 1 and isinstance(node.ops[0], ast.In) and isinstance(node.left, ast.Constant)
+                and isinstance(node.left.value, str) and len(node.left.value) == 1 and 32 <= ord(node.left.value) < 127 and node.left.value != '"'
+                and self.tr.out == "pysrc_ianab_gen.v"):
+            ty, t = self.ex(node.comparators[0], env)        # 'c' in s
+            if ty != "str":
+                bad(node, "`in` on %s" % show(ty))
+            return ("bool", "(contains_char \"%s\"%%char %s)" % (node.left.value, t))
+        if (isinstance(node, ast.Subscript) and not isinstance(node.slice, ast.Slice) and isinstance(node.value, ast.Name)
+                and env.get(node.value.id, ("",))[0] == "srec"):
+            return ("out", "str", "(py_srec_get %s %s)" % (env[node.value.id][1], self.ex_str(node.slice, env)))      # d[k]: KeyError
+        if isinstance(node, ast.Attribute) and dotted(node) in ("ieee." + x for x in SRCG_INDEX) and "ieee" not in env:
+            return ("eindex", self.index_symbol(node))
+        if (isinstance(node, ast.Compare) and len(node.ops) == 1 and isinstance(node.ops[0], ast.In)
+                and dotted(node.comparators[0]) in ("ieee." + x for x in SRCG_INDEX) and "ieee" not in env):
+            return ("bool", "(py_eidx_mem %s %s)" % (self.index_symbol(node.comparators[0]), self.int_(node.left, env)))
+        if (isinstance(node, ast.Subscript) and not isinstance(node.slice, ast.Slice) and dotted(node.value) in ("ieee." + x for x in SRCG_INDEX)
+                and "ieee" not in env):
+            return ("out", ("list", Cell("zpair")), "(py_eidx_get %s %s)" % (self.index_symbol(node.value), self.int_(node.slice, env)))
+        if (isinstance(node, ast.Attribute) and node.attr == "_value" and isinstance(node.value, ast.Name)
+                and isinstance(env.get(node.value.id, ("",))[0], str) and env.get(node.value.id, ("",))[0] in SRCG_IDCLASS):
+            return ("int", env[node.value.id][1])           # x._value of an OUI / IAB object x (represented by that integer)
+        if (isinstance(node, ast.BinOp) and isinstance(node.op, ast.Mod) and isinstance(node.left, ast.Constant) and isinstance(node.left.value, str)
+                and isinstance(node.right, ast.Name) and node.right.id == "self" and "self" not in env and self.recv
+                and re.fullmatch(r"[ -$&-~]*%s[ -$&-~]*", node.left.value) and '"' not in node.left.value
+                and self.tr.out == "pysrc_euig_gen.v"):
+            a, b = node.left.value.split("%s")               # '<text>%s<text>' % self: str(self) = the translated __str__
+            dstr = self.tr.get(self.recv, "__str__", node)
+            dargs = []
+            if getattr(dstr, "dialect_param", False):        # (EUI.__str__ reads the receiver's dialect: its first parameter)
+                if "self._dialect" not in self.attrs:
+                    bad(node, "str(self) needs the receiver's dialect, which this entry does not declare")
+                dargs = [self.attrs["self._dialect"]]
+            r = Fn.generated(self, node, self.recv, "__str__", self.state(env), dargs)
+            if (r[1] if r[0] == "out" else r[0]) != "str":
+                bad(node, "__str__ of %s is not translated as text" % self.recv)
+            if r[0] == "out":
+                h = self.fresh()
+                self.hoist(node, ("bind", h, r[2]))
+            else:
+                h = r[1]
+            return ("str", "(append \"%s\"%%string (append %s \"%s\"%%string))" % (a, h, b))
+        if (isinstance(node, ast.BinOp) and isinstance(node.op, ast.Mod) and isinstance(node.left, ast.Constant) and isinstance(node.left.value, str)
+                and re.fullmatch(r"[ -$&-~]*%r[ -$&-~]*", node.left.value) and '"' not in node.left.value and self.tr.out == "pysrc_sets_g_gen.v"):
+            return self.format_r(node, env)
+        if (isinstance(node, ast.BinOp) and isinstance(node.op, ast.Mod) and isinstance(node.left, ast.Constant) and isinstance(node.left.value, str)
+                and re.fullmatch(r"(?:[ -$&-~]|%s|%d)*", node.left.value) and '"' not in node.left.value and "%" in node.left.value
+                and self.tr.out != "pysrc_euig_gen.v"):
+            return self.format_sd(node, env)
+        if (isinstance(node, ast.BinOp) and isinstance(node.op, ast.Mod) and isinstance(node.left, ast.Constant) and isinstance(node.left.value, str)
+                and re.fullmatch(r"[ -$&-~]*%o", node.left.value) and '"' not in node.left.value):
+            e = self.int_(node.right, env)                   # '<text>%o' % e for an int e: the text followed by e in octal
+            return ("str", "(py_fmt_oct \"%s\"%%string %s)" % (node.left.value[:-2], e))
+        return super().rhs(node, env)
+
+    def registration_of(self, node, prop, env):
+        """self.oui.registration() / self.iab.registration() on an EUI receiver.  The translated property getter (units pysrc_eui_gen.v /
+        pysrc_euib_gen.v) answers None or the INTEGER the identifier object is made from (CTOR_AS_ARG); here the object is really
+        built: the translated constructor <C>.__init__:int on that integer (C = the class every `return` of the getter calls, default
+        arguments), then the translated registration() on the finished object; None.registration() is AttributeError."""
+        r = self.mod.lookup("EUI", prop)
+        rets = [n.value for n in ast.walk(r[1]) if isinstance(n, ast.Return) and n.value is not None] if r and r[2] else []
+        cs = {dotted(v.func) if isinstance(v, ast.Call) and len(v.args) == 1 and not v.keywords else None for v in rets}
+        cls = cs.pop() if len(cs) == 1 else None
+        if cls not in CTOR_AS_ARG or cls not in self.mod.classes:
+            bad(node, "EUI.%s does not answer OUI(<int>) / IAB(<int>) objects only" % prop)
+        g = self.tr.get("EUI", prop, node)
+        if g.outcome or g.kind != "int" or not g.optional or g.params:
+            bad(node, "unexpected translation of EUI.%s" % prop)
+        if FILES.index(g.file) > FILES.index(self.file):
+            bad(node, "%s lives in a later file" % g.cname)
+        self.depfns.append(g)
+        ctor, reg = self.tr.get(cls, "__init__:int", node), self.tr.get(cls, "registration", node)
+        self.depfns += [ctor, reg]
+        names = [a.arg for a in ctor.f.args.args][2:]                # parameters after (self, <the int>): their literal defaults
+        dfl = ctor.f.args.defaults[len(ctor.f.args.defaults) - len(names):] if names else []
+        extra = []
+        for x, v in zip(names, dfl):
+            if not (isinstance(v, ast.Constant) and isinstance(v.value, bool)):
+                bad(node, "default of parameter %s of %s.__init__" % (x, cls))
+            extra.append("true" if v.value else "false")
+        if len(extra) != len(names) or len(ctor.params) != 1 + len(names):
+            bad(node, "parameters of %s.__init__" % cls)
+        rnames = [a.arg for a in reg.f.args.args][1:]
+        rdfl = [const_int(v) for v in reg.f.args.defaults]
+        if len(rdfl) != len(rnames) or None in rdfl:
+            bad(node, "parameters of %s.registration" % cls)
+        call = "(%s 0 %s)" % (ctor.cname, " ".join(["h0"] + extra))      # (the receiver value a constructor is handed is not read)
+        regc = "(%s)" % " ".join([reg.cname, "(fst st)", "(snd st)"] + ["%d" % k for k in rdfl])
+        if not reg.outcome:
+            regc = "Ok %s" % regc
+        term = "(match (%s %s) with None => Raise AttributeError | Some h0 => do st <- %s; %s end)" % (g.cname, self.state(env), call, regc)
+        return ("out", "orec", term)
+
+    def str_of_expr(self, node, env):
+        """str(e) as '%s' prints it: text itself; an int in decimal; `self` / an IPAddress object through the translated __str__;
+        `self.__class__.__name__` = the name of the receiver class (a subclass would print its own name: out of scope)"""
+        if dotted(node) == "self.__class__.__name__" and self.recv and "self" not in env:
+            return srcc_strlit(self.recv, node)
+        if isinstance(node, ast.Name) and node.id == "self" and "self" not in env and self.recv:
+            r = self.generated(node, self.recv, "__str__", self.state(env), [])
+        else:
+            ty, t = self.ex(node, env)
+            if ty == "str":
+                return t
+            if ty == "int":
+                return "(fmt_d %s)" % t
+            if ty != "obj":
+                bad(node, "%%s of %s" % show(ty))
+            r = self.generated(node, "IPAddress", "__str__", " ".join(t[:3]), [])
+        if (r[1] if r[0] == "out" else r[0]) != "str":
+            bad(node, "__str__ is not translated as text")
+        if r[0] != "out":
+            return r[1]
+        h = self.fresh()
+        self.hoist(node, ("bind", h, r[2]))
+        return h
+
+    def format_r(self, node, env):
+        """'<text>%r<text>' % <list of text>: Python's repr of a list of str (py_repr_strlist: each item in single quotes, joined by
+        ', ', in brackets; Unsupported for an item that needs escaping -- no IP text does)"""
+        a, b = node.left.value.split("%r")
+        ty, t = self.ex(node.right, env)
+        if not (is_list(ty) and ty[1].find().t == "str"):
+            bad(node, "%%r of %s" % show(ty))
+        h = self.fresh()
+        self.hoist(node, ("bind", h, "(py_repr_strlist %s)" % t))
+        return ("str", "(String.append %s (String.append %s %s))" % (srcc_strlit(a, node), h, srcc_strlit(b, node)))
+
+    def format_sd(self, node, env):
+        """'..%s..%d..' % (a, b) / % a: the pieces joined by String.append (right-nested), arguments left to right"""
+        fmt = node.left.value
+        args = node.right.elts if isinstance(node.right, ast.Tuple) else [node.right]
+        parts = re.split(r"(%s|%d)", fmt)
+        if len([x for x in parts if x in ("%s", "%d")]) != len(args):
+            bad(node, "format string with %d conversions for %d arguments" % (len(parts) // 2, len(args)))
+        terms, args = [], list(args)
+        for x in parts:
+            if x == "%s":
+                terms.append(self.str_of_expr(args.pop(0), env))
+            elif x == "%d":
+                terms.append("(fmt_d %s)" % self.int_(args.pop(0), env))
+            elif x:
+                terms.append(srcc_strlit(x, node))
+        out = terms[-1]
+        for t in reversed(terms[:-1]):
+            out = "(String.append %s %s)" % (t, out)
+        return ("str", out)
+
+    def generated(self, node, recv, name, state, args):
+        r = super().generated(node, recv, name, state, args)
+        d = self.depfns[-1]
+        if getattr(d, "uses_be", False) or getattr(d, "g_uses_be", False):      # the callee takes the socket back-end first (CtorFn / FnG)
+            self.g_uses_be = True
+            r = r[:-1] + (r[-1].replace("(%s" % d.cname, "(%s be" % d.cname, 1),)
+        return r
+
+    def text(self):
+        t = super().text()
+        if getattr(self, "g_uses_be", False):
+            if self.loops:
+                bad(self.f, "loop in a function that depends on the socket back-end")
+            head = "\nDefinition %s " % self.cname
+            if t.count(head) != 1:
+                bad(self.f, "cannot place the back-end parameter of %s" % self.cname)
+            t = t.replace(head, head + "(be : backend) ", 1)
+        return t
+
+    def ctor(self, node, cls, env):
+        if cls == "IPAddress" and len(node.args) == 1 and not node.keywords and self.tr.out == "pysrc_ianab_gen.v":
+            t = self.ex_str(node.args[0], env)               # IPAddress(<text>): the translated constructor __init__:str with its defaults
+            d = self.tr.get("IPAddress", "__init__:str", node)
+            if [x.arg for x in d.f.args.args][1:] != ["addr", "version", "flags"] or [
+                    (x.value if isinstance(x, ast.Constant) else x) for x in d.f.args.defaults] != [None, 0]:
+                bad(node, "IPAddress.__init__ is not (self, addr, version=None, flags=0)")
+            return self.generated(node, "IPAddress", "__init__:str", "", [("str", t), ("optint", "None"), ("int", "0")])
+        if cls == "IPNetwork" and len(node.args) == 1 and not node.keywords and not isinstance(node.args[0], ast.Tuple):
+            snap, pre0 = self.snapshot(), list(self.pre)
+            ty, t = self.ex(node.args[0], env)
+            if ty == "str":                                  # IPNetwork(<text>): the translated constructor __init__:str, defaults filled in
+                d = self.tr.get("IPNetwork", "__init__:str", node)
+                names = [a.arg for a in d.f.args.args][1:]
+                dfl = dict(zip(names[len(names) - len(d.f.args.defaults):], d.f.args.defaults))
+                args = [(ty, t)]
+                for x, (_, pty) in list(zip(names, d.params))[1:]:
+                    v = dfl.get(x)
+                    if not isinstance(v, ast.Constant):
+                        bad(node, "parameter %s of IPNetwork.__init__ has no constant default" % x)
+                    if v.value is None and pty == "optint":
+                        args.append(("optint", "None"))
+                    elif isinstance(v.value, bool) and pty == "bool":
+                        args.append(("bool", "true" if v.value else "false"))
+                    elif isinstance(v.value, int) and not isinstance(v.value, bool) and pty == "int":
+                        args.append(("int", "%d" % v.value if v.value >= 0 else "(%d)" % v.value))
+                    else:
+                        bad(node, "default of parameter %s of IPNetwork.__init__" % x)
+                return self.generated(node, "IPNetwork", "__init__:str", "", args)
+            self.restore(snap)
+            self.pre = pre0
+        return super().ctor(node, cls, env)
+
+    def module_dispatch(self, node, env):
+        """self._module.f(args, kw=..) on an IPAddress receiver: the strategy module is _ipv4 or _ipv6, told apart by their version
+        constants; f is the definition translated by a unit over that module's file, arguments by the callee's signature"""
+        f, alts, kind = node.func, [], None
+        for m in ("ipv4", "ipv6"):
+            if self.mod.imports.get("_" + m) != "netaddr.strategy." + m:
+                bad(node, "self._module.%s(..) in a file that does not import _%s" % (f.attr, m))
+            d = None
+            for t in BY_MODULE_ALL.get("netaddr.strategy." + m, ()):
+                if any(k[0] is None and k[1] == f.attr for k in t.specs):
+                    d = t.get(None, f.attr, node)
+            if d is None or FILES.index(d.file) > FILES.index(self.file) or d.optional or d.mutating:
+                bad(node, "_%s.%s is not translated (or not usable here)" % (m, f.attr))
+            self.depfns.append(d)
+            names = [a.arg for a in d.f.args.args]
+            given = dict(zip(names, node.args))
+            for kw in node.keywords:
+                if kw.arg is None or kw.arg in given or kw.arg not in names:
+                    bad(node, "unsupported keyword argument")
+                given[kw.arg] = kw.value
+            if len(node.args) > len(names) or set(given) != set(names) or len(names) != len(d.params):
+                bad(node, "argument list of %s" % d.cname)
+            terms = []
+            for x, (_, pty) in zip(names, d.params):
+                npre = len(self.pre)
+                ty, t = self.ex(given[x], env)
+                if len(self.pre) != npre and alts:
+                    bad(node, "argument of self._module.%s(..) that can raise" % f.attr)
+                if coqty(pty, node) == "unit" and ty in ("none", "cls6g"):
+                    t = "tt"                                 # a parameter the callee never reads (translated with type unit)
+                elif pty == "optcls6" and ty in ("none", "cls6g"):
+                    t = "None" if ty == "none" else "(Some %s)" % t
+                else:
+                    unify(node, ty, pty, "argument of %s" % d.cname)
+                terms.append(t)
+            if d.__dict__.get("srcc_be"):
+                self.g_uses_be = True
+                terms.insert(0, "be")
+            kd = d.kind
+            if kind is not None:
+                unify(node, kd, kind, "results of the two strategy modules")
+            kind = kd
+            call = "(%s)" % " ".join([d.cname] + terms)
+            alts.append(("src_%s_version" % m, call if d.outcome else "Ok %s" % call))
+        ver = self.attrs["self._module.version"][1]
+        return ("out", kind, "(if (%s =? %s) then %s else if (%s =? %s) then %s else Raise Unsupported)" % (
+            ver, alts[0][0], alts[0][1], ver, alts[1][0], alts[1][1]))
+
+    def strategy_call(self, node, env):
+        """_ipv4.f(args) / _ipv6.f(args) for the strategy modules the file imports: the function f translated by a unit over that
+        module's file; omitted trailing parameters take their literal default (None for a parameter of Coq type unit: tt)"""
+        f = node.func
+        m = f.value.id[1:]
+        if self.mod.imports.get(f.value.id) != "netaddr.strategy." + m or f.value.id in env or node.keywords:
+            bad(node, "call of %s.%s" % (f.value.id, f.attr))
+        d = None
+        for t in BY_MODULE_ALL.get("netaddr.strategy." + m, ()):
+            if any(k[0] is None and k[1] == f.attr for k in t.specs):
+                d = t.get(None, f.attr, node)
+        if d is None:
+            bad(node, "%s.%s is not translated" % (f.value.id, f.attr))
+        if FILES.index(d.file) > FILES.index(self.file):
+            bad(node, "%s lives in a later file" % d.cname)
+        self.depfns.append(d)
+        names = [a.arg for a in d.f.args.args]
+        dfl = dict(zip(names[len(names) - len(d.f.args.defaults):], d.f.args.defaults))
+        args = [self.ex(x, env) for x in node.args]
+        for x, (_, pty) in list(zip(names, d.params))[len(args):]:
+            v = dfl.get(x)
+            if not (isinstance(v, ast.Constant) and v.value is None and coqty(pty, node) == "unit"):
+                bad(node, "omitted parameter %s of %s" % (x, d.cname))
+            args.append((pty, "tt"))
+        if len(args) != len(d.params):
+            bad(node, "argument list of %s" % d.cname)
+        for (ty, _), (_, pty) in zip(args[:len(node.args)], d.params):
+            unify(node, ty, pty, "argument of %s" % d.cname)
+        if d.__dict__.get("srcc_be") or d.optional or d.mutating:
+            bad(node, "%s uses the socket back-end, may return None or assigns state" % d.cname)
+        term = "(%s)" % " ".join([d.cname] + [t for _, t in args])
+        return ("out", d.kind, term) if d.outcome else (d.kind, term)
+
+    def index_symbol(self, node):
+        """ieee.OUI_INDEX / ieee.IAB_INDEX inside a function that imports `ieee` from netaddr.eui: the Section variable of that name
+        (netaddr/eui/ieee.py must bind the name once at top level, by `NAME = {}`)"""
+        name = node.attr
+        imp = [st for st in ast.walk(self.mod.lookup(self.recv, self.pyname)[1]) if isinstance(st, ast.ImportFrom)] if self.recv else []
+        if not any(st.module == "netaddr.eui" and [(a.name, a.asname) for a in st.names] == [("ieee", None)] for st in imp) or self.mod.toplevel("ieee"):
+            bad(node, "ieee is not the module netaddr.eui.ieee imported inside this function")
+        CURFILE.append(SRCG_INDEX[name])
+        try:
+            m = Module(SRCG_INDEX[name])
+            ds = [a for a in m.tree.body for x in ast.walk(a) if isinstance(x, ast.Name) and x.id == name and isinstance(x.ctx, ast.Store)]
+            if not (len(ds) == 1 and isinstance(ds[0], ast.Assign) and len(ds[0].targets) == 1 and isinstance(ds[0].value, ast.Dict) and not ds[0].value.keys):
+                bad(ds[-1] if ds else None, "%s is not bound once, at top level, by `%s = {}`" % (name, name))
+        finally:
+            CURFILE.pop()
+        return name
+
+    def finish(self):
+        rets = [l for l in self.leaves(self.ir) if l[0] == "ret" and l[1] != "@loop"]
+        if not rets and not self.lrets and self.ir[0] == "raise" and self.tr.out == "pysrc_sets_g_gen.v":
+            # a method whose body is one `raise`: it answers nothing; the definition is `Raise E` at type outcome unit
+            self.kind = self.retkind = "none"
+            self.optional, self.outcome, self.type, self.fresh = False, True, "outcome unit", False
+            return
+        super().finish()
+
+    def return_(self, s, env):
+        v = s.value
+        if (self.tr.out == "pysrc_sets_g_gen.v" and isinstance(v, ast.Tuple) and len(v.elts) == 3 and dotted(v.elts[0]) == "self.__class__"
+                and isinstance(v.elts[1], ast.Tuple) and not v.elts[1].elts and "self" not in env):
+            # return self.__class__, (), <state>  (__reduce__): the class and the empty argument tuple are constants of the method; the
+            # definition answers the third component, the state handed to __setstate__
+            r = self.rhs(v.elts[2], env)
+            ty = r[1] if r[0] == "out" else r[0]
+            if not is_value(ty):
+                bad(s, "state of kind %s" % show(ty))
+            return self.wrap(self.take_pre(), self.leaf(env, ty, r[2] if r[0] == "out" else r[1], r[0] == "out"))
+        return super().return_(s, env)
+
+    def ex_str(self, node, env):
+        ty, t = self.ex(node, env)
+        if ty != "str":
+            bad(node, "text expected, got %s" % show(ty))
+        return t
+
+    def listcomp(self, node, env):
+        g = node.generators
+        if (len(g) == 1 and not g[0].ifs and not g[0].is_async and isinstance(g[0].target, ast.Name) and g[0].target.id not in env
+                and self.builtin_call(node.elt, "str", env, 1) and isinstance(node.elt.args[0], ast.Name)
+                and node.elt.args[0].id == g[0].target.id and self.tr.out == "pysrc_sets_g_gen.v"):
+            ty, t = self.ex(g[0].iter, env)              # [str(c) for c in l] for IPNetwork objects: the translated IPNetwork.__str__ of each
+            if not (is_list(ty) and ty[1].find().t == "net"):
+                bad(node, "[str(c) for c in l] over %s" % show(ty))
+            r = self.generated(node, "IPNetwork", "__str__", self.net_state("c"), [])
+            if r[0] != "out" or r[1] != "str":
+                bad(node, "IPNetwork.__str__ is not translated as text that can raise")
+            return ("out", ("list", Cell("str")), "(py_map_og (fun c => %s) %s)" % (r[2], t))
+        if (len(g) == 1 and not g[0].ifs and not g[0].is_async and isinstance(g[0].target, ast.Name) and g[0].target.id not in env
+                and self.builtin_call(node.elt, "str", env, 1) and self.builtin_call(node.elt.args[0], "int", env, 1)
+                and isinstance(node.elt.args[0].args[0], ast.Name) and node.elt.args[0].args[0].id == g[0].target.id):
+            ty, t = self.ex(g[0].iter, env)              # [str(int(x)) for x in xs]: the decimal text of each item, ValueError at the first bad one
+            if is_list(ty) and ty[1].find().t == "str":
+                return ("out", ("list", Cell("str")), "(py_map_og (fun x => do n <- py_int_o 10 x; Ok (fmt_d n)) %s)" % t)
+            bad(node, "[str(int(x)) for x in xs] over %s" % show(ty))
+        if (len(g) == 1 and not g[0].ifs and not g[0].is_async and isinstance(g[0].target, ast.Name) and g[0].target.id not in env
+                and self.builtin_call(node.elt, "int", env, 1) and isinstance(node.elt.args[0], ast.Name)
+                and node.elt.args[0].id == g[0].target.id):
+            ty, t = self.ex(g[0].iter, env)              # [int(x) for x in xs] for a list of text: ValueError at the first bad item
+            if is_list(ty) and ty[1].find().t == "str":
+                return ("out", ("list", Cell("int")), "(py_map_og (py_int_o 10) %s)" % t)
+            bad(node, "[int(x) for x in xs] over %s" % show(ty))
+        return super().listcomp(node, env)
+
+    def assign(self, s, env, go):
+        tgt = s.targets[0] if isinstance(s, ast.Assign) and len(s.targets) == 1 else None
+        if isinstance(tgt, ast.Tuple) and len(tgt.elts) == 3 and all(isinstance(x, ast.Name) for x in tgt.elts) and isinstance(s.value, ast.ListComp):
+            r = self.rhs(s.value, env)                   # (a, b, c) = <list of ints>: ValueError unless it has three items
+            if r[0] == "out" and is_list(r[1]) and r[1][1].find().t == "int":
+                pre, names = self.take_pre(), []
+                for x in tgt.elts:
+                    cn, env = self.bind_local(x, x.id, "int", env, s.value)
+                    names.append(cn)
+                return self.wrap(pre, ("bind", pattern(names), "(do h0 <- %s; py_triple_of_list h0)" % r[2], go(env)))
+            bad(s, "unpacking of %s" % show(r[1] if r[0] == "out" else r[0]))
+        if (isinstance(tgt, ast.Name) and isinstance(s.value, ast.Call) and dotted(s.value.func) == "IPRange" and "IPRange" not in env
+                and self.mod.imports.get("IPRange") == "netaddr.ip.IPRange" and len(s.value.args) == 2 and not s.value.keywords):
+            a, b = self.ex_str(s.value.args[0], env), self.ex_str(s.value.args[1], env)
+            d = self.tr.get("IPRange", "__init__:str", s)     # x = IPRange(<text>, <text>): the translated constructor, flags = its default
+            if [x.arg for x in d.f.args.args][1:] != ["start", "end", "flags"] or [const_int(x) for x in d.f.args.defaults] != [0]:
+                bad(s, "IPRange.__init__ is not (self, start, end, flags=0)")
+            r = self.generated(s, "IPRange", "__init__:str", "", [("str", a), ("str", b), ("int", "0")])
+            if r[0] != "out" or r[1] != ("tup", ("int", "int", "int")) and show(r[1]) != "tuple (int, int, int)":
+                bad(s, "unexpected translation of IPRange.__init__:str: %s" % show(r[1]))
+            pre, h = self.take_pre(), self.fresh()
+            self.coqname(tgt, tgt.id)
+            env = dict(env)
+            env[tgt.id] = (("opnd", "ORng", {"ver": "(fst (fst %s))" % h, "s": "(snd (fst %s))" % h, "e": "(snd %s)" % h}), None)
+            return self.wrap(pre, ("bind", h, r[2], go(env)))
+        if isinstance(tgt, ast.Tuple) and len(tgt.elts) == 2 and all(isinstance(x, ast.Name) for x in tgt.elts):
+            snap, pre0 = self.snapshot(), list(self.pre)
+            r = self.rhs(s.value, env)
+            ty = r[1] if r[0] == "out" else r[0]
+            if is_list(ty) and ty[1].find().t == "str" and r[0] != "out":      # (a, b) = <list of text>: ValueError unless two items
+                pre, names = self.take_pre(), []
+                for x in tgt.elts:
+                    cn, env = self.bind_local(x, x.id, "str", env, s.value)
+                    names.append(cn)
+                return self.wrap(pre, ("bind", pattern(names), "(py_unpack2g %s)" % r[1], go(env)))
+            if ty == "zpair":                                # (a, b) = <an (offset, size) pair>
+                pre, names = self.take_pre(), []
+                for x in tgt.elts:
+                    cn, env = self.bind_local(x, x.id, "int", env, s.value)
+                    names.append(cn)
+                return self.wrap(pre, ("let", pattern(names), r[1], go(env)))
+            if ty == "tuple" and r[0] == "out":              # a, b = <a translated method answering a tuple of ints>: ValueError unless 2
+                pre, names = self.take_pre(), []
+                for x in tgt.elts:
+                    cn, env = self.bind_local(x, x.id, "int", env, s.value)
+                    names.append(cn)
+                return self.wrap(pre, ("bind", pattern(names), "(do h0 <- %s; py_pair_of_list h0)" % r[2], go(env)))
+            self.restore(snap)
+            self.pre = pre0
+        return super().assign(s, env, go)
+
+    def iana_key(self, node):
+        """the literal key K of IANA_INFO[K]: one of the keys of the module-level dict literal IANA_INFO (bound once, each value {})"""
+        ds = [a for a in self.mod.tree.body for n in ast.walk(a) if isinstance(n, ast.Name) and n.id == "IANA_INFO" and isinstance(n.ctx, ast.Store)]
+        v = ds[0].value if len(ds) == 1 and isinstance(ds[0], ast.Assign) and len(ds[0].targets) == 1 else None
+        if not (isinstance(v, ast.Dict) and all(isinstance(kk, ast.Constant) and isinstance(kk.value, str) for kk in v.keys)
+                and all(isinstance(x, ast.Dict) and not x.keys for x in v.values)):
+            bad(node, "IANA_INFO is not bound once, at top level, to a dict literal of empty dicts")
+        if not (isinstance(node, ast.Constant) and isinstance(node.value, str) and node.value in [kk.value for kk in v.keys]):
+            bad(node, "IANA_INFO[..] with something other than one of its literal keys")
+        return srcc_strlit(node.value, node)
+
+    def call(self, node, env):
+        f = node.func
+        name = f.id if isinstance(f, ast.Name) else None
+        if name == "__g_sd_new":
+            return ("sdict", "py_sd_new")
+        if (isinstance(f, ast.Attribute) and f.attr == "bit_length" and not node.args and not node.keywords and self.tr.out == "pysrc_core_gen.v"):
+            return ("int", "(py_num_bits %s)" % self.int_(f.value, env))      # int.bit_length(): SrcPreludeCmp.py_num_bits (Order.num_bits)
+        if (self.tr.out == "pysrc_sets_g_gen.v" and self.builtin_call(node, "sorted", env, 1) and isinstance(node.args[0], ast.Name)
+                and env.get(node.args[0].id, ("",))[0] == "dict"):
+            # sorted(d) for the dict of an IPSet: its keys sorted by IPNetwork ordering (SrcPreludeSets.py_sorted_nets = Sets.sorted)
+            return (("list", Cell("net")), "(py_sorted_nets %s)" % env[node.args[0].id][1])
+        if (self.tr.out == "pysrc_sets_g_gen.v" and dotted(f) == "_itertools.chain" and FnF.plain_import(self, "_itertools", "itertools")
+                and len(node.args) == 1 and isinstance(node.args[0], ast.Starred) and not node.keywords):
+            ty, t = self.ex(node.args[0].value, env)         # itertools.chain(*l) for a list of IPNetwork objects: the iterator over the
+            if not (is_list(ty) and ty[1].find().t == "net"):        # addresses of one after the other, as the list of what it yields
+                bad(node, "itertools.chain(*l) over %s" % show(ty))
+            return (("list", Cell("objv")), "(py_flat_addrs %s)" % t)
+        if name == "__g_dict_item":
+            kt = self.objname(node.args[0], env)
+            if kt is None:
+                bad(node, "self.dct[k] = v for a key that is not an IPNetwork / IPRange / IPAddress object")
+            ty, t = kt
+            key = ("(IKNet %s)" % t if ty == "net" else "(IKAddr %s)" % t[3] if ty == "obj" else
+                   "(IKRange %s %s %s)" % (ty[2]["ver"], ty[2]["s"], ty[2]["e"]) if ty[1] == "ORng" else None)
+            vt, v = self.ex(node.args[1], env)
+            if key is None or vt != "srec":
+                bad(node, "self.dct[k] = v with a %s value" % show(vt))
+            return (("tup", ("ikv", "srec")), "(%s, %s)" % (key, v))
+        if (isinstance(f, ast.Attribute) and not node.keywords and f.attr in ("split", "strip", "join") and self.tr.out == "pysrc_ianab_gen.v"):
+            ty, t = self.ex(f.value, env)
+            if ty != "str":
+                bad(node, "%s() on %s" % (f.attr, show(ty)))
+            if f.attr == "strip" and not node.args:
+                return ("str", "(py_strip %s)" % t)          # s.strip(): white space off both ends
+            if f.attr == "split" and len(node.args) == 1 and isinstance(node.args[0], ast.Constant) and isinstance(node.args[0].value, str) and len(node.args[0].value) == 1:
+                return (("list", Cell("str")), "(split %s %s)" % (srcc_charlit(node.args[0].value, node), t))
+            if f.attr == "join" and len(node.args) == 1:
+                lty, l = self.ex(node.args[0], env)
+                unify(node, lty, ("list", Cell("str")), "argument of join")
+                return ("str", "(join %s %s)" % (t, l))
+            bad(node, "%s() with an unsupported argument list" % f.attr)
+        if name == "__g_flat_addrs":
+            ty, t = self.ex(node.args[0], env)           # the addresses of the IPNetwork objects of a list, block after block
+            if not (is_list(ty) and ty[1].find().t == "net"):
+                bad(node, "`for x in E: for y in x: yield y` over %s" % show(ty))
+            return (("list", Cell("objv")), "(py_flat_addrs %s)" % t)
+        if name == "__g_csv_rows":
+            ty, t = self.ex(node.args[0], env)
+            unify(node, ty, ("list", Cell("str")), "lines handed to csv.reader")
+            return (("list", Cell(("list", Cell("str")))), "(CSV_READER %s)" % t)
+        if name in ("__g_sd_setdefault", "__g_sd_append") and self.ex(node.args[0], env)[0] == "eindex":
+            (_, d), kk = self.ex(node.args[0], env), self.int_(node.args[1], env)
+            if name == "__g_sd_setdefault":                 # index.setdefault(k, [])
+                return ("eindex", "(py_eidx_setdefault %s %s)" % (d, kk))
+            x = node.args[2]                                 # index[k].append((a, b)): KeyError without k
+            if not (isinstance(x, ast.Tuple) and len(x.elts) == 2):
+                bad(node, "index[k].append(x) for x other than a pair")
+            return ("out", "eindex", "(py_eidx_append %s %s (%s, %s))" % (d, kk, self.int_(x.elts[0], env), self.int_(x.elts[1], env)))
+        if name in ("__g_sd_setdefault", "__g_sd_append"):
+            (td, d), (tk, kk) = self.ex(node.args[0], env), self.ex(node.args[1], env)
+            if td != "sdict" or tk != "str":
+                bad(node, "setdefault / append on %s with a key of kind %s" % (show(td), show(tk)))
+            if name == "__g_sd_setdefault":                 # d.setdefault(k, []): a new empty list under k unless k is present
+                return ("sdict", "(py_sd_setdefault %s %s)" % (d, kk))
+            tx, x = self.ex(node.args[2], env)               # d[k].append(x): KeyError without k
+            if tx != "irec":
+                bad(node, "d[k].append(x) for x of kind %s" % show(tx))
+            return ("out", "sdict", "(py_sd_append %s %s %s)" % (d, kk, x))
+        if name == "__g_iana_items":
+            return (("list", Cell("ikey")), "(IANA_INFO %s)" % self.iana_key(node.args[0]))
+        if name in ("__g_item_key", "__g_item_value"):       # the two components of a dictionary item: the same row, seen as key / as record
+            ty, t = self.ex(node.args[0], env)
+            if ty != "ikey":
+                bad(node, "dictionary item of kind %s" % show(ty))
+            return ("ikey" if name == "__g_item_key" else "irec", t)
+        if name == "__g_file_read":
+            fname = srcc_strlit(node.args[0].value, node)
+            return ("str", "(REGISTRY_FILE %s %s %s)" % (fname, self.int_(node.args[1], env), self.int_(node.args[2], env)))
+        if name == "__g_rec_new":
+            items = [self.ex(x, env) for x in node.args]
+            want = ["int", "str", "str", "liststr", "int", "int"]
+            got = [("liststr" if is_list(ty) else ty) for ty, _ in items]
+            if got != want:
+                bad(node, "record literal with values of kinds %s" % got)
+            unify(node, items[3][0], ("list", Cell("str")), "address list of a record")
+            return ("orec", "(%s)" % ", ".join(t for _, t in items))
+        if name == "__g_rec_set":
+            (tr_, r), key = self.ex(node.args[0], env), node.args[1].value
+            keys = SRCG_REC_KEYS[self.recv]
+            if tr_ != "orec" or key not in keys or SRCG_REC_TYPES[keys.index(key)] != "int":
+                bad(node, "record[%r] = .. on %s" % (key, show(tr_)))
+            return ("orec", "(py_rec_set %s %d %s)" % (r, keys.index(key), self.int_(node.args[2], env)))
+        if name == "__g_parse_data":
+            d = self.tr.get(self.recv, "_parse_data", node)          # translated by the SRCF unit pysrc_euic_gen.v
+            if FILES.index(d.file) > FILES.index(self.file):
+                bad(node, "%s lives in a later file" % d.cname)
+            self.deps.add((self.recv, "_parse_data"))
+            self.depfns.append(d)
+            v = self.int_(node.args[0], env)
+            rest_ = node.args[(2 if self.recv == "IAB" else 1):]
+            args = [self.ex(x, env) for x in rest_]
+            want = [("str" if i == 0 else "int") for i in range(3)]
+            if [ty for ty, _ in args] != want or not d.outcome or len(d.params) != (3 if self.recv == "OUI" else 9):
+                bad(node, "unexpected shape of the translated %s._parse_data" % self.recv)
+            call = " ".join([d.cname, v] + [t for _, t in args])
+            if self.recv == "IAB":
+                rty, r = self.ex(node.args[1], env)
+                if rty != "orec":
+                    bad(node, "self.record is %s" % show(rty))
+                call = "let '(r_idx, r_id, r_org, r_address, r_offset, r_size) := %s in %s r_idx r_id r_org r_address r_offset r_size" % (r, call)
+            return ("out", "orec", "(%s)" % call)
+        if (isinstance(f, ast.Attribute) and dotted(f) == "self." + f.attr and (self.recv, f.attr) in SRCF_CLASSMETHODS and "self" not in env):
+            d = self.tr.get(self.recv, f.attr, node)                 # a classmethod that reads only class constants (SRCF_CLASSMETHODS)
+            names = [x.arg for x in d.f.args.args][1:]
+            given = dict(zip(names, node.args))
+            for kw in node.keywords:
+                if kw.arg is None or kw.arg in given or kw.arg not in names:
+                    bad(node, "unsupported keyword argument")
+                given[kw.arg] = kw.value
+            if len(node.args) > len(names) or set(given) != set(names) or len(d.params) != len(names):
+                bad(node, "argument list of %s" % d.cname)
+            self.deps.add((self.recv, f.attr))
+            self.depfns.append(d)
+            args = [self.ex(given[x], env) for x in names]
+            for (ty, _), (_, pty) in zip(args, d.params):
+                unify(node, ty, pty, "argument of %s" % d.cname)
+            term = "(%s)" % " ".join([d.cname] + [t for _, t in args])
+            return ("out", d.kind, term) if d.outcome else (d.kind, term)
+        if (isinstance(f, ast.Name) and name == "_is_int" and name not in env and self.mod.imports.get(name) == "netaddr.compat._is_int"
+                and len(node.args) == 1 and not node.keywords and compat_lambda_isinstance("_is_int")):
+            ty, _ = self.ex(node.args[0], env)                       # _is_int(x): decided by the type
+            if ty not in ("int", "str"):
+                bad(node, "_is_int of %s" % show(ty))
+            return ("bool", "true" if ty == "int" else "false")
+        if (isinstance(f, ast.Attribute) and isinstance(f.value, ast.Name) and f.value.id in ("_ipv4", "_ipv6")
+                and self.tr.out == "pysrc_ipg_gen.v"):
+            return self.strategy_call(node, env)
+        if (isinstance(f, ast.Attribute) and dotted(f.value) == "self._module" and self.tr.out == "pysrc_ipg_gen.v" and self.recv == "IPAddress"
+                and "self" not in env and node.keywords):
+            return self.module_dispatch(node, env)
+        if name == "__g_info_new":
+            ty, t = self.ex(node.args[0], env)
+            if ty != "orec":
+                bad(node, "{'OUI': e} for e of kind %s" % show(ty))
+            return ("einfo", "(%s, None)" % t)
+        if name == "__g_info_iab":
+            (td, d), (ty, t) = self.ex(node.args[0], env), self.ex(node.args[1], env)
+            if td != "einfo" or ty != "orec":
+                bad(node, "d['IAB'] = e on %s with e of kind %s" % (show(td), show(ty)))
+            return ("einfo", "(fst %s, Some %s)" % (d, t))
+        if (isinstance(f, ast.Attribute) and f.attr == "registration" and not node.args and not node.keywords and self.recv == "EUI"
+                and isinstance(f.value, ast.Attribute) and dotted(f.value) in ("self.oui", "self.iab") and "self" not in env):
+            return self.registration_of(node, f.value.attr, env)
+        if (name == "DictDotLookup" and name not in env and self.mod.imports.get(name) == "netaddr.core.DictDotLookup" and len(node.args) == 1
+                and not node.keywords):
+            ty, t = self.ex(node.args[0], env)               # DictDotLookup(d): the attribute view of the dict d, represented by d itself
+            if ty not in ("orec", "einfo"):
+                bad(node, "DictDotLookup of %s" % show(ty))
+            return (ty, t)
+        if (isinstance(f, ast.Attribute) and isinstance(f.value, ast.Name) and f.value.id != "self" and not node.keywords
+                and env.get(f.value.id, ("",))[0] == "obj"):
+            r = self.tr.modof("IPAddress").lookup("IPAddress", f.attr)      # x.m(..) for an IPAddress object x: the translated method
+            if r and not r[2]:
+                return self.generated(node, "IPAddress", f.attr, " ".join(env[f.value.id][1][:3]), [("int", self.int_(a, env)) for a in node.args])
+        return super().call(node, env)
+
+    def callfn(self, node, name, env):
+        if node.keywords:
+            bad(node, "keyword arguments in a call of %s" % name)
+        args = [self.ex(x, env) for x in node.args]          # an IPAddress object is handed over as its pair
+        return self.generated(node, None, name, "", [(ty, t[3]) if ty == "obj" else (ty, t) for ty, t in args])
+
+
+FN_CLASS.update({u[1]: FnG for u in SRCG_UNITS if u[1] not in SRCG_PLAIN_FN})
+
+
+# ---- SRCG: netaddr/compat.py.  Every compat name whose reading the translator only justified by "it is imported from netaddr.compat"
+# is checked here against the binding the translator assumes (the Python 3 branch, the first binding in the file; the Python 2
+# branch is dead on every supported interpreter): name -> the source text its first binding must be equal to (as an AST).
+# A name whose binding differs is REMOVED from the import table of every parsed module, so that exactly the functions that use it
+# stop translating (each use site tests `imports.get(name) == "netaddr.compat.<name>"`): fail closed, scoped.
+SRCG_COMPAT_EXPECT = {
+    "_int_type": "_int_type = int",
+    "_str_type": "_str_type = str",
+    "_dict_keys": "_dict_keys = lambda x: list(x.keys())",
+    "_dict_items": "_dict_items = lambda x: list(x.items())",
+    "_iter_next": "def _iter_next(x):\n    return next(x)",
+    "_range": "def _range(*args, **kwargs):\n    return list(range(*args, **kwargs))",
+    "_bytes_join": "def _bytes_join(*args):\n    return ''.encode().join(*args)",
+    "_importlib_resources": "from importlib import resources as _importlib_resources",
+}
+SRCG_COMPAT_CACHE = {}
+
+
+def srcg_compat_bad_names():
+    """the names of SRCG_COMPAT_EXPECT whose first binding in netaddr/compat.py is not the expected one (cached per file text)"""
+    fn = os.path.join(REPO, "netaddr/compat.py")
+    text = open(fn, encoding="utf-8").read()
+    if SRCG_COMPAT_CACHE.get("text") != text:
+        tree, badn = ast.parse(text), set()
+        for name, want in SRCG_COMPAT_EXPECT.items():
+            binds = [n for n in ast.walk(tree) if (isinstance(n, (ast.FunctionDef, ast.ClassDef)) and n.name == name)
+                     or (isinstance(n, (ast.Import, ast.ImportFrom)) and any((a.asname or a.name) == name for a in n.names))
+                     or (isinstance(n, (ast.Assign, ast.AugAssign, ast.AnnAssign)) and any(
+                         isinstance(t, ast.Name) and t.id == name and isinstance(t.ctx, ast.Store) for t in ast.walk(n)))]
+            binds.sort(key=lambda n: n.lineno)
+            w = ast.parse(want).body[0]
+            if not binds or ast.dump(binds[0]) != ast.dump(w):
+                badn.add(name)
+        SRCG_COMPAT_CACHE["text"], SRCG_COMPAT_CACHE["bad"] = text, badn
+    return SRCG_COMPAT_CACHE["bad"]
+
+
+_module_init_before_SRCG = Module.__init__
+
+
+def _srcg_module_init(self, fn):
+    _module_init_before_SRCG(self, fn)
+    for name in srcg_compat_bad_names():
+        if self.imports.get(name) == "netaddr.compat." + name:
+            del self.imports[name]
+
+
+Module.__init__ = _srcg_module_init
+
+
+# ---- SRCG: IPGlob.__repr__ (netaddr/ip/glob.py), read by a subclass of FnB (the reader of the glob unit) that adds one reading:
+# `self.__class__.__name__` = the name of the receiver class (a subclass would print its own name: out of scope)
+class FnGB(FnB):
+    def rhs(self, node, env):
+        if dotted(node) == "self.__class__.__name__" and self.recv and "self" not in env and isinstance(node.ctx, ast.Load):
+            return ("str", srcc_strlit(self.recv, node))
+        return super().rhs(node, env)
+
+
+FnGB.__name__ = "FnB"           # (Translator.get recognises the readers of the SRCB units by this name: PURE_EXTRA)
+SRCG_GLOB_UNIT = ("netaddr/ip/glob.py", "pysrc_globg_gen.v", "", " Base.PyStr Model.SrcPreludeStr Model.SrcPreludeGlob", [("IPGlob", "__repr__", {})])
+UNITS = UNITS + [SRCG_GLOB_UNIT]
+FILES = FILES + (SRCG_GLOB_UNIT[1],)
+FN_CLASS[SRCG_GLOB_UNIT[1]] = FnGB
